@@ -4,10 +4,11 @@
    Part B: adjoint identities, pure algebra, all shapes:  <g, JVP(dtheta)> = - <grads, dtheta>.
    Part C: derivatives  t |-> <g, infer(theta + t dtheta)>  (chain rule), penalties.
    Part D: must-link / cannot-link decoration.   Part E: row discipline, uniqueness of the direction. *)
-From Coq Require Import Reals Lra Lia Psatz List.
+From Coq Require Import Reals Lra Lia Psatz List Bool Arith.
 From Coquelicot Require Import Coquelicot.
 From GV Require Import Common.Num Common.NumR Model.Forward Model.Mlcl Model.Backprop.
-From GV Require Import Proofs.RSumLib Proofs.GeminiDefs.
+From GV Require Import Proofs.RSumLib Proofs.GeminiDefs Proofs.Mlcl.
+Import ListNotations.
 Open Scope R_scope.
 
 (* ================================================================== generic facts (every number system) *)
@@ -343,3 +344,1122 @@ Qed.
 Theorem mlp_adjoint n d h K X th g dth : relu_off_kink n h (preact d X th) ->
   inner n K g (mlp_jvp n d h K X th dth) = - inner_mlp d h K (mlp_step_grads Rops n d h K th X g) dth.
 Proof. intros _. apply mlp_adjoint_any. Qed.
+
+(* ------------------------------------------------------------------ sparse MLP (skip connection) *)
+Definition smlp_core (p : @SMlpP R) : @MlpP R := {| mW1 := sW1 p; mW2 := sW2 p; mb1 := sb1 p; mb2 := sb2 p |}.
+Definition inner_smlp (d h K : nat) (g dth : @SMlpP R) : R :=
+  inner_mlp d h K (smlp_core g) (smlp_core dth) + inner d K (sWskip g) (sWskip dth).
+Definition smlp_dlogits (d h : nat) (X : mat) (th dth : @SMlpP R) : mat :=
+  fun i k => mlp_dlogits d h X (smlp_core th) (smlp_core dth) i k + rsum d (fun j => X i j * sWskip dth j k).
+Definition sparse_mlp_jvp (n d h K : nat) (X : mat) (th dth : @SMlpP R) : mat :=
+  smjvp K (sparse_mlp_infer_p Rops d h K th X) (smlp_dlogits d h X th dth).
+
+Lemma sparse_mlp_adjoint_any n d h K (X Y g : mat) (th dth : @SMlpP R) :
+  inner n K g (smjvp K Y (smlp_dlogits d h X th dth))
+  = - inner_smlp d h K (sparse_mlp_compute_grads Rops n K (sW2 th) (mlp_hidden Rops d h (sW1 th) (sb1 th) X) X Y g) dth.
+Proof.
+  rewrite softmax_adjoint. unfold smlp_dlogits.
+  rewrite (inner_plus_r n K (tau_hat Rops K Y g) (mlp_dlogits d h X (smlp_core th) (smlp_core dth))
+             (fun i k => rsum d (fun j => X i j * sWskip dth j k))).
+  rewrite <- softmax_adjoint, (mlp_adjoint_any n d h K X Y g (smlp_core th) (smlp_core dth)).
+  rewrite matmul_adjoint.
+  unfold inner_smlp. cbn [smlp_core mW1 mW2 mb1 mb2 sW1 sW2 sb1 sb2].
+  replace (inner d K (sWskip (sparse_mlp_compute_grads Rops n K (sW2 th) (mlp_hidden Rops d h (sW1 th) (sb1 th) X) X Y g)) (sWskip dth))
+    with (- inner d K (fun j k => rsum n (fun i => X i j * tau_hat Rops K Y g i k)) (sWskip dth)).
+  2:{ rewrite <- inner_neg_l. apply inner_ext; [|reflexivity]. intros j k _ _.
+      unfold sparse_mlp_compute_grads. cbn [sWskip]. rewrite mneg_R, tmatmul_R. reflexivity. }
+  unfold inner_mlp, mlp_compute_grads, sparse_mlp_compute_grads, smlp_core. cbn [mW1 mW2 mb1 mb2 sW1 sW2 sb1 sb2]. ring.
+Qed.
+Theorem sparse_mlp_adjoint n d h K X th g dth :
+  inner n K g (sparse_mlp_jvp n d h K X th dth) = - inner_smlp d h K (sparse_mlp_step_grads Rops n d h K th X g) dth.
+Proof. apply sparse_mlp_adjoint_any. Qed.
+
+(* ------------------------------------------------------------------ categorical: the parameters are the logits *)
+Lemma categorical_adjoint_any n K (Y g dL : mat) :
+  inner n K g (smjvp K Y dL) = - inner n K (categorical_compute_grads Rops K Y g) dL.
+Proof.
+  rewrite softmax_adjoint, <- inner_neg_l. apply inner_ext; [|reflexivity].
+  intros i k _ _. unfold categorical_compute_grads. rewrite mneg_R. ring.
+Qed.
+Definition categorical_jvp (K : nat) (L dL : mat) : mat := smjvp K (categorical_infer Rops K L) dL.
+Theorem categorical_adjoint n K L g dL :
+  inner n K g (categorical_jvp K L dL) = - inner n K (categorical_step_grads Rops K L g) dL.
+Proof. apply categorical_adjoint_any. Qed.
+
+(* ================================================================== Part C: derivatives (chain rule) *)
+Lemma dR_inner n K (g : mat) (Y : R -> mat) (dY : mat) :
+  (forall i k, (i < n)%nat -> (k < K)%nat -> is_derive (fun t : R => Y t i k) 0 (dY i k)) ->
+  is_derive (fun t : R => inner n K g (Y t)) 0 (inner n K g dY).
+Proof.
+  intros H. unfold inner.
+  apply (dR_rsum n (fun i t => rsum K (fun k => g i k * Y t i k))). intros i Hi.
+  apply (dR_rsum K (fun k t => g i k * Y t i k)). intros k Hk. apply dR_scal, H; assumption.
+Qed.
+(* softmax of a differentiable curve of logit matrices; Z0 is any presentation of the logits at t = 0 *)
+Lemma dR_softmax n K (Z : R -> mat) (Z0 dZ : mat) : (0 < K)%nat ->
+  (forall i c, Z 0 i c = Z0 i c) ->
+  (forall i k, (i < n)%nat -> (k < K)%nat -> is_derive (fun t : R => Z t i k) 0 (dZ i k)) ->
+  forall i k, (i < n)%nat -> (k < K)%nat ->
+    is_derive (fun t : R => softmax Rops K (Z t) i k) 0 (smjvp K (softmax Rops K Z0) dZ i k).
+Proof.
+  intros HK H0 HZ i k Hi Hk. unfold softmax, smjvp.
+  pose proof (softmax_row_derive K (fun c t => Z t i c) (dZ i) k HK Hk (fun c Hc => HZ i c Hi Hc)) as H.
+  cbn beta in H. eapply dR_val; [|exact H]. eqR. unfold smjvp_row.
+  rewrite (softmax_row_ext Rops K (fun c => Z 0 i c) (Z0 i) k (H0 i)). f_equal. f_equal.
+  apply rsum_ext. intros c Hc. rewrite (softmax_row_ext Rops K (fun c0 => Z 0 i c0) (Z0 i) c (H0 i)). reflexivity.
+Qed.
+Lemma dR_lin_scal (a w dw x : R) : is_derive (fun t : R => a * (w + t * dw)) x (a * dw).
+Proof. apply dR_scal, dR_lin. Qed.
+Lemma dR_mult0 (f g : R -> R) a b f0 g0 : is_derive f 0 a -> is_derive g 0 b -> f 0 = f0 -> g 0 = g0 ->
+  is_derive (fun t : R => f t * g t) 0 (a * g0 + f0 * b).
+Proof. intros Hf Hg <- <-. apply dR_mult; assumption. Qed.
+(* affine map with perturbed weights: X (W + t dW) + (b + t db) *)
+Lemma dR_affine d (X W dW : mat) (b db : nat -> R) i k :
+  is_derive (fun t : R => affine Rops d X (fun j c => W j c + t * dW j c) (fun c => b c + t * db c) i k) 0
+            (rsum d (fun j => X i j * dW j k) + db k).
+Proof.
+  apply (dR_ext (fun t : R => rsum d (fun j => X i j * (W j k + t * dW j k)) + (b k + t * db k))).
+  { intros t. reflexivity. }
+  apply dR_plus; [|apply dR_lin].
+  apply (dR_rsum d (fun j t => X i j * (W j k + t * dW j k))). intros j Hj. apply dR_lin_scal.
+Qed.
+Lemma affine_pert0 d (X W dW : mat) (b db : nat -> R) i k :
+  affine Rops d X (fun j c => W j c + 0 * dW j c) (fun c => b c + 0 * db c) i k = affine Rops d X W b i k.
+Proof. rewrite !affine_R. f_equal; [apply rsum_ext; intros; ring | ring]. Qed.
+
+(* ------------------------------------------------------------------ linear *)
+Definition lin_pert (th dth : @LinP R) (t : R) : @LinP R :=
+  {| lW := fun j k => lW th j k + t * lW dth j k; lb := fun k => lb th k + t * lb dth k |}.
+
+Lemma linear_infer_derive n d K (X : mat) (th dth : @LinP R) : (0 < K)%nat ->
+  forall i k, (i < n)%nat -> (k < K)%nat ->
+    is_derive (fun t : R => linear_infer_p Rops d K (lin_pert th dth t) X i k) 0 (linear_jvp d K X th dth i k).
+Proof.
+  intros HK i k Hi Hk. unfold linear_infer_p, linear_infer, linear_jvp, lin_pert. cbn [lW lb].
+  apply (dR_softmax n K (fun t => affine Rops d X (fun j c => lW th j c + t * lW dth j c) (fun c => lb th c + t * lb dth c))
+           (affine Rops d X (lW th) (lb th)) (lin_dlogits d X dth) HK); try assumption.
+  - intros i' c. apply affine_pert0.
+  - intros i' k' _ _. apply dR_affine.
+Qed.
+(* C03 (b), linear family: the direction handed to the optimiser is minus the gradient of t |-> <g, infer(theta + t dtheta)> *)
+Theorem linear_direction_is_gradient n d K (X : mat) (th dth : @LinP R) (g : mat) : (0 < K)%nat ->
+  is_derive (fun t : R => inner n K g (linear_infer_p Rops d K (lin_pert th dth t) X)) 0
+            (- inner_lin d K (linear_step_grads Rops n d K th X g) dth).
+Proof.
+  intros HK. rewrite <- linear_adjoint.
+  apply (dR_inner n K g (fun t => linear_infer_p Rops d K (lin_pert th dth t) X)).
+  intros i k Hi Hk. apply (linear_infer_derive n); assumption.
+Qed.
+
+(* ------------------------------------------------------------------ C03 (c): penalties *)
+Definition sqnorm (d K : nat) (W : mat) : R := rsum d (fun j => rsum K (fun k => W j k * W j k)).
+(* tr(W^T Kt W) with the full nt x nt training kernel *)
+Definition trWKW (nt K : nat) (Kt W : mat) : R :=
+  rsum K (fun k => rsum nt (fun j => rsum nt (fun l => W j k * Kt j l * W l k))).
+Definition sym_on (nt : nat) (Kt : mat) : Prop := forall j l, (j < nt)%nat -> (l < nt)%nat -> Kt j l = Kt l j.
+
+Theorem penalty_l2_derive d K reg (W dW : mat) :
+  is_derive (fun t : R => reg * sqnorm d K (fun j k => W j k + t * dW j k)) 0
+            (inner d K (fun j k => 2 * reg * W j k) dW).
+Proof.
+  assert (H : is_derive (fun t : R => reg * sqnorm d K (fun j k => W j k + t * dW j k)) 0
+                (reg * rsum d (fun j => rsum K (fun k => dW j k * W j k + W j k * dW j k)))).
+  { apply dR_scal. unfold sqnorm.
+    apply (dR_rsum d (fun j t => rsum K (fun k => (W j k + t * dW j k) * (W j k + t * dW j k)))). intros j Hj.
+    apply (dR_rsum K (fun k t => (W j k + t * dW j k) * (W j k + t * dW j k))). intros k Hk.
+    apply dR_mult0; try apply dR_lin; ring. }
+  eapply dR_val; [|exact H]. eqR. unfold inner.
+  rewrite <- rsum_scal. apply rsum_ext. intros j Hj. rewrite <- rsum_scal. apply rsum_ext. intros k Hk. ring.
+Qed.
+
+Theorem penalty_kernel_derive nt K reg (Kt W dW : mat) : sym_on nt Kt ->
+  is_derive (fun t : R => reg * trWKW nt K Kt (fun j k => W j k + t * dW j k)) 0
+            (inner nt K (fun j k => 2 * reg * rsum nt (fun l => Kt j l * W l k)) dW).
+Proof.
+  intros Hsym.
+  assert (H : is_derive (fun t : R => reg * trWKW nt K Kt (fun j k => W j k + t * dW j k)) 0
+                (reg * rsum K (fun k => rsum nt (fun j => rsum nt (fun l =>
+                   dW j k * Kt j l * W l k + W j k * Kt j l * dW l k))))).
+  { apply dR_scal. unfold trWKW.
+    apply (dR_rsum K (fun k t => rsum nt (fun j => rsum nt (fun l => (W j k + t * dW j k) * Kt j l * (W l k + t * dW l k))))). intros k Hk.
+    apply (dR_rsum nt (fun j t => rsum nt (fun l => (W j k + t * dW j k) * Kt j l * (W l k + t * dW l k)))). intros j Hj.
+    apply (dR_rsum nt (fun l t => (W j k + t * dW j k) * Kt j l * (W l k + t * dW l k))). intros l Hl.
+    eapply dR_val; [|apply (dR_mult0 (fun t : R => (W j k + t * dW j k) * Kt j l) (fun t : R => W l k + t * dW l k)
+                               (dW j k * Kt j l) (dW l k) (W j k * Kt j l) (W l k))].
+    - eqR. ring.
+    - apply (dR_ext (fun t : R => Kt j l * (W j k + t * dW j k))); [intros; ring|].
+      eapply dR_val; [|apply dR_lin_scal]. eqR. ring.
+    - apply dR_lin.
+    - ring.
+    - ring. }
+  eapply dR_val; [|exact H]. eqR. unfold inner.
+  rewrite (rsum_swap nt K). rewrite <- rsum_scal. apply rsum_ext. intros k Hk.
+  (* per column k *)
+  assert (E2 : rsum nt (fun j => rsum nt (fun l => W j k * Kt j l * dW l k))
+             = rsum nt (fun j => rsum nt (fun l => W l k * Kt j l * dW j k))).
+  { rewrite rsum_swap. apply rsum_ext. intros j Hj. apply rsum_ext. intros l Hl. rewrite (Hsym l j Hl Hj). reflexivity. }
+  rewrite (rsum_ext nt (fun j => rsum nt (fun l => dW j k * Kt j l * W l k + W j k * Kt j l * dW l k))
+             (fun j => rsum nt (fun l => dW j k * Kt j l * W l k) + rsum nt (fun l => W j k * Kt j l * dW l k)))
+    by (intros; apply rsum_plus).
+  rewrite rsum_plus, E2, <- rsum_plus, <- rsum_scal. apply rsum_ext. intros j Hj.
+  rewrite <- rsum_plus.
+  rewrite (rsum_ext nt (fun l => dW j k * Kt j l * W l k + W l k * Kt j l * dW j k) (fun l => (2 * dW j k) * (Kt j l * W l k))) by (intros; ring).
+  rewrite rsum_scal. ring.
+Qed.
+
+(* ------------------------------------------------------------------ RIM: MI - reg ||W||^2 *)
+Theorem rim_direction_is_gradient n d K reg (X : mat) (th dth : @LinP R) (g : mat) : (0 < K)%nat ->
+  is_derive (fun t : R => inner n K g (linear_infer_p Rops d K (lin_pert th dth t) X)
+                          - reg * sqnorm d K (lW (lin_pert th dth t))) 0
+            (- inner_lin d K (rim_step_grads Rops n d K reg th X g) dth).
+Proof.
+  intros HK. unfold rim_step_grads. rewrite rim_grads_split.
+  eapply dR_val; [|apply dR_minus; [apply (linear_direction_is_gradient n d K X th dth g HK)
+                                   | apply (penalty_l2_derive d K reg (lW th) (lW dth))]].
+  eqR. ring.
+Qed.
+(* KernelRIM: MI(batch rows of the kernel) - reg tr(W^T Kt W), Kt the whole (symmetric) training kernel;
+   X is the batch's block of kernel rows, any n x nt matrix *)
+Theorem kernel_rim_direction_is_gradient n nt K reg (Kt X : mat) (th dth : @LinP R) (g : mat) : (0 < K)%nat ->
+  sym_on nt Kt ->
+  is_derive (fun t : R => inner n K g (linear_infer_p Rops nt K (lin_pert th dth t) X)
+                          - reg * trWKW nt K Kt (lW (lin_pert th dth t))) 0
+            (- inner_lin nt K (kernel_rim_step_grads Rops n nt K reg Kt th X g) dth).
+Proof.
+  intros HK Hsym. unfold kernel_rim_step_grads. rewrite kernel_rim_grads_split.
+  eapply dR_val; [|apply dR_minus; [apply (linear_direction_is_gradient n nt K X th dth g HK)
+                                   | apply (penalty_kernel_derive nt K reg Kt (lW th) (lW dth) Hsym)]].
+  eqR. unfold linear_step_grads. ring.
+Qed.
+
+(* ------------------------------------------------------------------ ReLU off the kink *)
+Lemma dR_relu (f : R -> R) a a0 : is_derive f 0 a -> f 0 = a0 -> a0 <> 0 ->
+  is_derive (fun t : R => relu Rops (f t)) 0 ((if Rlt_dec 0 a0 then 1 else 0) * a).
+Proof.
+  intros Hf H0 Hne.
+  assert (Hc : continuous f 0) by (apply (ex_derive_continuous f); exists a; exact Hf).
+  destruct (Rlt_dec 0 a0) as [Hp|Hn].
+  - (* positive: relu is the identity nearby *)
+    rewrite Rmult_1_l. apply (dR_ext_loc f); [|exact Hf].
+    assert (HL : locally 0 (fun t => 0 < f t)).
+    { apply (Hc (fun y => 0 < y)). apply (open_gt 0). rewrite H0. exact Hp. }
+    revert HL. apply filter_imp. intros t Ht. rewrite relu_R. destruct (Rlt_dec (f t) 0); [lra | reflexivity].
+  - (* negative: relu is 0 nearby *)
+    rewrite Rmult_0_l. apply (dR_ext_loc (fun _ : R => 0)); [|apply dR_const].
+    assert (HL : locally 0 (fun t => f t < 0)).
+    { apply (Hc (fun y => y < 0)). apply (open_lt 0). rewrite H0. lra. }
+    revert HL. apply filter_imp. intros t Ht. rewrite relu_R. destruct (Rlt_dec (f t) 0); [reflexivity | lra].
+Qed.
+
+(* ------------------------------------------------------------------ MLP *)
+Definition mlp_pert (th dth : @MlpP R) (t : R) : @MlpP R :=
+  {| mW1 := fun j' j => mW1 th j' j + t * mW1 dth j' j; mW2 := fun j k => mW2 th j k + t * mW2 dth j k;
+     mb1 := fun j => mb1 th j + t * mb1 dth j; mb2 := fun k => mb2 th k + t * mb2 dth k |}.
+
+Lemma mlp_hidden_derive n d h (X : mat) (W1 dW1 : mat) (b1 db1 : nat -> R) :
+  relu_off_kink n h (affine Rops d X W1 b1) ->
+  forall i j, (i < n)%nat -> (j < h)%nat ->
+    is_derive (fun t : R => mlp_hidden Rops d h (fun j' c => W1 j' c + t * dW1 j' c) (fun c => b1 c + t * db1 c) X i j) 0
+              ((if Rlt_dec 0 (affine Rops d X W1 b1 i j) then 1 else 0) * (rsum d (fun j' => X i j' * dW1 j' j) + db1 j)).
+Proof.
+  intros Hoff i j Hi Hj. unfold mlp_hidden.
+  apply (dR_relu (fun t : R => affine Rops d X (fun j' c => W1 j' c + t * dW1 j' c) (fun c => b1 c + t * db1 c) i j)).
+  - apply dR_affine.
+  - apply affine_pert0.
+  - apply Hoff; assumption.
+Qed.
+
+(* logits H(t) W2(t) + b2(t) [+ an extra differentiable term E(t), used for the skip connection] *)
+Lemma mlp_logits_derive n d h (X W1 dW1 W2 dW2 : mat) (b1 db1 b2 db2 : nat -> R) :
+  relu_off_kink n h (affine Rops d X W1 b1) ->
+  forall i k, (i < n)%nat ->
+    is_derive (fun t : R => affine Rops h (mlp_hidden Rops d h (fun j' c => W1 j' c + t * dW1 j' c) (fun c => b1 c + t * db1 c) X)
+                              (fun j c => W2 j c + t * dW2 j c) (fun c => b2 c + t * db2 c) i k) 0
+      (rsum h (fun j => ((if Rlt_dec 0 (affine Rops d X W1 b1 i j) then 1 else 0) * (rsum d (fun j' => X i j' * dW1 j' j) + db1 j)) * W2 j k)
+       + (rsum h (fun j => mlp_hidden Rops d h W1 b1 X i j * dW2 j k) + db2 k)).
+Proof.
+  intros Hoff i k Hi.
+  apply (dR_ext (fun t : R => rsum h (fun j => mlp_hidden Rops d h (fun j' c => W1 j' c + t * dW1 j' c) (fun c => b1 c + t * db1 c) X i j
+                                               * (W2 j k + t * dW2 j k)) + (b2 k + t * db2 k))).
+  { intros t. reflexivity. }
+  rewrite <- Rplus_assoc. apply dR_plus; [|apply dR_lin].
+  rewrite <- rsum_plus.
+  apply (dR_rsum h (fun j t => mlp_hidden Rops d h (fun j' c => W1 j' c + t * dW1 j' c) (fun c => b1 c + t * db1 c) X i j
+                               * (W2 j k + t * dW2 j k))).
+  intros j Hj. apply dR_mult0.
+  - apply (mlp_hidden_derive n); assumption.
+  - apply dR_lin.
+  - unfold mlp_hidden. f_equal. apply affine_pert0.
+  - ring.
+Qed.
+
+Lemma mlp_infer_derive n d h K (X : mat) (th dth : @MlpP R) : (0 < K)%nat ->
+  relu_off_kink n h (preact d X th) ->
+  forall i k, (i < n)%nat -> (k < K)%nat ->
+    is_derive (fun t : R => mlp_infer_p Rops d h K (mlp_pert th dth t) X i k) 0 (mlp_jvp n d h K X th dth i k).
+Proof.
+  intros HK Hoff i k Hi Hk. unfold mlp_infer_p, mlp_infer, mlp_jvp, mlp_pert. cbn [mW1 mW2 mb1 mb2].
+  apply (dR_softmax n K
+           (fun t => affine Rops h (mlp_hidden Rops d h (fun j' c => mW1 th j' c + t * mW1 dth j' c) (fun c => mb1 th c + t * mb1 dth c) X)
+                       (fun j c => mW2 th j c + t * mW2 dth j c) (fun c => mb2 th c + t * mb2 dth c))
+           (affine Rops h (mlp_hidden Rops d h (mW1 th) (mb1 th) X) (mW2 th) (mb2 th))
+           (mlp_dlogits d h X th dth) HK); try assumption.
+  - intros i' c. rewrite !affine_R. f_equal; [|ring]. apply rsum_ext. intros j Hj. f_equal; [|ring].
+    unfold mlp_hidden. f_equal. apply affine_pert0.
+  - intros i' k' Hi' _. unfold mlp_dlogits, mlp_dhidden, dmask, preact.
+    apply (mlp_logits_derive n d h X (mW1 th) (mW1 dth) (mW2 th) (mW2 dth) (mb1 th) (mb1 dth) (mb2 th) (mb2 dth) Hoff i' k' Hi').
+Qed.
+(* C03 (b), MLP: off the ReLU kink the direction is minus the gradient *)
+Theorem mlp_direction_is_gradient n d h K (X : mat) (th dth : @MlpP R) (g : mat) : (0 < K)%nat ->
+  relu_off_kink n h (preact d X th) ->
+  is_derive (fun t : R => inner n K g (mlp_infer_p Rops d h K (mlp_pert th dth t) X)) 0
+            (- inner_mlp d h K (mlp_step_grads Rops n d h K th X g) dth).
+Proof.
+  intros HK Hoff. rewrite <- (mlp_adjoint n d h K X th g dth Hoff).
+  apply (dR_inner n K g (fun t => mlp_infer_p Rops d h K (mlp_pert th dth t) X)).
+  intros i k Hi Hk. apply mlp_infer_derive; assumption.
+Qed.
+
+(* ------------------------------------------------------------------ sparse MLP *)
+Definition smlp_pert (th dth : @SMlpP R) (t : R) : @SMlpP R :=
+  {| sW1 := fun j' j => sW1 th j' j + t * sW1 dth j' j; sW2 := fun j k => sW2 th j k + t * sW2 dth j k;
+     sWskip := fun j k => sWskip th j k + t * sWskip dth j k;
+     sb1 := fun j => sb1 th j + t * sb1 dth j; sb2 := fun k => sb2 th k + t * sb2 dth k |}.
+
+Lemma sparse_mlp_infer_derive n d h K (X : mat) (th dth : @SMlpP R) : (0 < K)%nat ->
+  relu_off_kink n h (preact d X (smlp_core th)) ->
+  forall i k, (i < n)%nat -> (k < K)%nat ->
+    is_derive (fun t : R => sparse_mlp_infer_p Rops d h K (smlp_pert th dth t) X i k) 0 (sparse_mlp_jvp n d h K X th dth i k).
+Proof.
+  intros HK Hoff i k Hi Hk. unfold sparse_mlp_infer_p, sparse_mlp_infer, sparse_mlp_jvp, smlp_pert. cbn [sW1 sW2 sWskip sb1 sb2].
+  apply (dR_softmax n K
+           (fun t i0 k0 => nadd Rops
+              (affine Rops h (mlp_hidden Rops d h (fun j' c => sW1 th j' c + t * sW1 dth j' c) (fun c => sb1 th c + t * sb1 dth c) X)
+                 (fun j c => sW2 th j c + t * sW2 dth j c) (fun c => sb2 th c + t * sb2 dth c) i0 k0)
+              (matmul Rops d X (fun j c => sWskip th j c + t * sWskip dth j c) i0 k0))
+           (fun i0 k0 => nadd Rops (affine Rops h (mlp_hidden Rops d h (sW1 th) (sb1 th) X) (sW2 th) (sb2 th) i0 k0)
+                               (matmul Rops d X (sWskip th) i0 k0))
+           (smlp_dlogits d h X th dth) HK); try assumption.
+  - intros i' c. cbn [nadd Rops]. rewrite !affine_R, !matmul_R. f_equal.
+    + f_equal; [|ring]. apply rsum_ext. intros j Hj. f_equal; [|ring]. unfold mlp_hidden. f_equal. apply affine_pert0.
+    + apply rsum_ext. intros j Hj. ring.
+  - intros i' k' Hi' _. cbn [nadd Rops]. unfold smlp_dlogits. apply dR_plus.
+    + unfold mlp_dlogits, mlp_dhidden, dmask, preact, smlp_core. cbn [mW1 mW2 mb1 mb2].
+      unfold preact, smlp_core in Hoff. cbn [mW1 mb1] in Hoff.
+      apply (mlp_logits_derive n d h X (sW1 th) (sW1 dth) (sW2 th) (sW2 dth) (sb1 th) (sb1 dth) (sb2 th) (sb2 dth) Hoff i' k' Hi').
+    + apply (dR_ext (fun t : R => rsum d (fun j => X i' j * (sWskip th j k' + t * sWskip dth j k')))); [intros; reflexivity|].
+      apply (dR_rsum d (fun j t => X i' j * (sWskip th j k' + t * sWskip dth j k'))). intros j Hj. apply dR_lin_scal.
+Qed.
+Theorem sparse_mlp_direction_is_gradient n d h K (X : mat) (th dth : @SMlpP R) (g : mat) : (0 < K)%nat ->
+  relu_off_kink n h (preact d X (smlp_core th)) ->
+  is_derive (fun t : R => inner n K g (sparse_mlp_infer_p Rops d h K (smlp_pert th dth t) X)) 0
+            (- inner_smlp d h K (sparse_mlp_step_grads Rops n d h K th X g) dth).
+Proof.
+  intros HK Hoff. rewrite <- sparse_mlp_adjoint.
+  apply (dR_inner n K g (fun t => sparse_mlp_infer_p Rops d h K (smlp_pert th dth t) X)).
+  intros i k Hi Hk. apply sparse_mlp_infer_derive; assumption.
+Qed.
+
+(* ------------------------------------------------------------------ categorical *)
+Lemma categorical_infer_derive n K (L dL : mat) : (0 < K)%nat ->
+  forall i k, (i < n)%nat -> (k < K)%nat ->
+    is_derive (fun t : R => categorical_infer Rops K (fun i0 k0 => L i0 k0 + t * dL i0 k0) i k) 0 (categorical_jvp K L dL i k).
+Proof.
+  intros HK i k Hi Hk. unfold categorical_infer, categorical_jvp.
+  apply (dR_softmax n K (fun t i0 k0 => L i0 k0 + t * dL i0 k0) L dL HK); try assumption.
+  - intros; ring.
+  - intros i' k' _ _. apply dR_lin.
+Qed.
+Theorem categorical_direction_is_gradient n K (L dL g : mat) : (0 < K)%nat ->
+  is_derive (fun t : R => inner n K g (categorical_infer Rops K (fun i k => L i k + t * dL i k))) 0
+            (- inner n K (categorical_step_grads Rops K L g) dL).
+Proof.
+  intros HK. rewrite <- categorical_adjoint.
+  apply (dR_inner n K g (fun t => categorical_infer Rops K (fun i k => L i k + t * dL i k))).
+  intros i k Hi Hk. apply (categorical_infer_derive n); assumption.
+Qed.
+
+(* ================================================================== Part D: must-link / cannot-link decoration *)
+(* (factor/2) * sum over the pairs lying wholly inside the batch of ||y_a - y_b||^2, a and b being the
+   positions of the two samples in the batch (first occurrence, as `list.index`) *)
+Definition pair_term (f : R) (idx : list nat) (K : nat) (Y : mat) (pr : nat * nat) : R :=
+  let (i, j) := pr in
+  if (mem i idx && mem j idx)%bool
+  then f / 2 * rsum K (fun k => (Y (index i idx) k - Y (index j idx) k) * (Y (index i idx) k - Y (index j idx) k))
+  else 0.
+Definition pair_pen (f : R) (idx : list nat) (K : nat) (Y : mat) (pairs : list (nat * nat)) : R :=
+  fold_right (fun pr acc => pair_term f idx K Y pr + acc) 0 pairs.
+
+Lemma nth_map_seq {A} (g : nat -> A) n p dflt : (p < n)%nat -> nth p (map g (seq 0 n)) dflt = g p.
+Proof.
+  intros Hp. rewrite (nth_indep _ dflt (g 0%nat)) by (rewrite map_length, seq_length; exact Hp).
+  rewrite (map_nth g (seq 0 n) 0%nat p). rewrite seq_nth by exact Hp. reflexivity.
+Qed.
+Lemma ent_to_rows n K (M : mat) p k : (p < n)%nat -> (k < K)%nat -> ent (to_rows n K M) p k = M p k.
+Proof.
+  intros Hp Hk. unfold ent, to_rows. rewrite (nth_map_seq (fun i => map (fun k0 => M i k0) (seq 0 K)) n p [] Hp).
+  apply (nth_map_seq (fun k0 => M p k0) K k 0 Hk).
+Qed.
+Lemma wf_to_rows n K (M : mat) : wf n K (to_rows n K M).
+Proof.
+  unfold wf, to_rows. split; [rewrite map_length, seq_length; reflexivity|].
+  apply Forall_forall. intros r Hr. apply in_map_iff in Hr. destruct Hr as (i & <- & _).
+  rewrite map_length, seq_length. reflexivity.
+Qed.
+Lemma of_rows_ent L i k : of_rows Rops L i k = ent L i k. Proof. reflexivity. Qed.
+
+(* closed form of the decorated upstream gradient on the batch's entries (from Proofs/Mlcl.v::decorate_ent) *)
+Lemma decorated_gradient_entry f idx n K (Y G : mat) ml cl p k : length idx = n -> (p < n)%nat -> (k < K)%nat ->
+  decorated_gradient Rops f idx n K Y ml cl G p k
+  = G p k + csum f idx (to_rows n K Y) cl p k - csum f idx (to_rows n K Y) ml p k.
+Proof.
+  intros Ln Hp Hk. unfold decorated_gradient. rewrite of_rows_ent.
+  destruct (decorate_ent f idx (to_rows n K Y) ml cl (to_rows n K G) n K Ln (wf_to_rows n K Y) (wf_to_rows n K G)) as [_ E].
+  rewrite (E p k Hp Hk), ent_to_rows by assumption. reflexivity.
+Qed.
+
+Lemma rsum_pick n a (u : R) (w : nat -> R) : (a < n)%nat ->
+  rsum n (fun p => (if (p =? a)%nat then u else 0) * w p) = u * w a.
+Proof.
+  intros Ha. rewrite (rsum_single n a); auto.
+  - rewrite Nat.eqb_refl. reflexivity.
+  - intros p Hp Hne. destruct (Nat.eqb_spec p a); [contradiction|]. ring.
+Qed.
+
+(* derivative of one pair's term along any entrywise differentiable curve of predictions *)
+Lemma pair_term_derive f idx n K (Yc : R -> mat) (Y0 D : mat) pr : length idx = n ->
+  (forall i k, (i < n)%nat -> (k < K)%nat -> Yc 0 i k = Y0 i k) ->
+  (forall i k, (i < n)%nat -> (k < K)%nat -> is_derive (fun t : R => Yc t i k) 0 (D i k)) ->
+  is_derive (fun t : R => pair_term f idx K (Yc t) pr) 0
+            (inner n K (fun p k => contrib f idx (to_rows n K Y0) pr p k) D).
+Proof.
+  intros Ln H0 HD. destruct pr as [i j]. unfold pair_term, contrib.
+  destruct (mem i idx && mem j idx)%bool eqn:E.
+  2:{ rewrite inner_sym, inner_zero_r. apply dR_const. }
+  apply andb_true_iff in E. destruct E as [Ei Ej]. apply mem_In in Ei. apply mem_In in Ej.
+  set (a := index i idx). set (b := index j idx).
+  assert (Ha : (a < n)%nat) by (rewrite <- Ln; apply index_lt, Ei).
+  assert (Hb : (b < n)%nat) by (rewrite <- Ln; apply index_lt, Ej).
+  assert (H : is_derive (fun t : R => f / 2 * rsum K (fun k => (Yc t a k - Yc t b k) * (Yc t a k - Yc t b k))) 0
+                (f / 2 * rsum K (fun k => (D a k - D b k) * (Y0 a k - Y0 b k) + (Y0 a k - Y0 b k) * (D a k - D b k)))).
+  { apply dR_scal. apply (dR_rsum K (fun k t => (Yc t a k - Yc t b k) * (Yc t a k - Yc t b k))). intros k Hk.
+    apply dR_mult0; try (apply dR_minus; apply HD; assumption); rewrite !H0 by assumption; reflexivity. }
+  eapply dR_val; [|exact H]. eqR.
+  unfold inner.
+  rewrite (rsum_ext n _ (fun p => rsum K (fun k =>
+             (if (p =? a)%nat then f * (Y0 a k - Y0 b k) else 0) * D p k + (if (p =? b)%nat then f * (Y0 b k - Y0 a k) else 0) * D p k))).
+  2:{ intros p Hp. apply rsum_ext. intros k Hk. rewrite !ent_to_rows by assumption. ring. }
+  rewrite rsum_swap. rewrite <- rsum_scal. apply rsum_ext. intros k Hk.
+  rewrite rsum_plus.
+  rewrite (rsum_pick n a (f * (Y0 a k - Y0 b k)) (fun p => D p k) Ha).
+  rewrite (rsum_pick n b (f * (Y0 b k - Y0 a k)) (fun p => D p k) Hb). field.
+Qed.
+Lemma pair_pen_derive f idx n K (Yc : R -> mat) (Y0 D : mat) pairs : length idx = n ->
+  (forall i k, (i < n)%nat -> (k < K)%nat -> Yc 0 i k = Y0 i k) ->
+  (forall i k, (i < n)%nat -> (k < K)%nat -> is_derive (fun t : R => Yc t i k) 0 (D i k)) ->
+  is_derive (fun t : R => pair_pen f idx K (Yc t) pairs) 0
+            (inner n K (fun p k => csum f idx (to_rows n K Y0) pairs p k) D).
+Proof.
+  intros Ln H0 HD. induction pairs as [|pr r IH].
+  - cbn [pair_pen fold_right csum]. rewrite inner_sym, inner_zero_r. apply dR_const.
+  - cbn [pair_pen fold_right]. fold (pair_pen f idx K).
+    eapply dR_val; [|apply dR_plus; [apply (pair_term_derive f idx n K Yc Y0 D pr Ln H0 HD) | exact IH]].
+    eqR. rewrite <- inner_plus_l. apply inner_ext; [|reflexivity]. intros p k _ _. reflexivity.
+Qed.
+
+(* C03 (d): if G is the gradient of the objective w.r.t. the predictions (along the curve Yc), the decorated
+   gradient is the gradient of   objective + (factor/2) sum_CL ||y_a - y_b||^2 - (factor/2) sum_ML ||y_a - y_b||^2
+   restricted to the pairs inside the batch.  (_compute_grads then negates: the optimiser, which descends,
+   increases the GEMINI, pushes cannot-link pairs apart and pulls must-link pairs together.) *)
+Theorem mlcl_decorated_gradient f idx n K (obj : mat -> R) (Yc : R -> mat) (Y0 G D : mat) ml cl : length idx = n ->
+  (forall i k, (i < n)%nat -> (k < K)%nat -> Yc 0 i k = Y0 i k) ->
+  (forall i k, (i < n)%nat -> (k < K)%nat -> is_derive (fun t : R => Yc t i k) 0 (D i k)) ->
+  is_derive (fun t : R => obj (Yc t)) 0 (inner n K G D) ->
+  is_derive (fun t : R => obj (Yc t) + pair_pen f idx K (Yc t) cl - pair_pen f idx K (Yc t) ml) 0
+            (inner n K (decorated_gradient Rops f idx n K Y0 ml cl G) D).
+Proof.
+  intros Ln H0 HD Hobj.
+  eapply dR_val; [|apply dR_minus; [apply dR_plus; [exact Hobj | apply (pair_pen_derive f idx n K Yc Y0 D cl Ln H0 HD)]
+                                   | apply (pair_pen_derive f idx n K Yc Y0 D ml Ln H0 HD)]].
+  eqR.
+  rewrite (inner_ext n K (decorated_gradient Rops f idx n K Y0 ml cl G)
+             (fun p k => (G p k + csum f idx (to_rows n K Y0) cl p k) + - csum f idx (to_rows n K Y0) ml p k) D D).
+  2:{ intros p k Hp Hk. rewrite decorated_gradient_entry by assumption. unfold Rminus. reflexivity. } 2:{ reflexivity. }
+  rewrite inner_plus_l, inner_plus_l, inner_neg_l. unfold Rminus. reflexivity.
+Qed.
+(* straight-line special case: predictions perturbed as Y + t D *)
+Corollary mlcl_decorated_gradient_line f idx n K (obj : mat -> R) (Y G D : mat) ml cl : length idx = n ->
+  is_derive (fun t : R => obj (pert Y D t)) 0 (inner n K G D) ->
+  is_derive (fun t : R => obj (pert Y D t) + pair_pen f idx K (pert Y D t) cl - pair_pen f idx K (pert Y D t) ml) 0
+            (inner n K (decorated_gradient Rops f idx n K Y ml cl G) D).
+Proof.
+  intros Ln Hobj. apply (mlcl_decorated_gradient f idx n K obj (pert Y D) Y G D ml cl Ln); try assumption.
+  - intros i k _ _. unfold pert. ring.
+  - intros i k _ _. unfold pert. apply dR_lin.
+Qed.
+
+(* the decorated objective along a curve of predictions, with the linearised GEMINI <g, Y> *)
+Lemma decorated_chain f idx n K (Yc : R -> mat) (Y0 D g : mat) ml cl : length idx = n ->
+  (forall i k, (i < n)%nat -> (k < K)%nat -> Yc 0 i k = Y0 i k) ->
+  (forall i k, (i < n)%nat -> (k < K)%nat -> is_derive (fun t : R => Yc t i k) 0 (D i k)) ->
+  is_derive (fun t : R => inner n K g (Yc t) + pair_pen f idx K (Yc t) cl - pair_pen f idx K (Yc t) ml) 0
+            (inner n K (decorated_gradient Rops f idx n K Y0 ml cl g) D).
+Proof.
+  intros Ln H0 HD.
+  apply (mlcl_decorated_gradient f idx n K (fun Y => inner n K g Y) Yc Y0 g D ml cl Ln H0 HD).
+  apply (dR_inner n K g Yc D HD).
+Qed.
+
+Lemma linear_infer_pert0 d K (X : mat) (th dth : @LinP R) i k :
+  linear_infer_p Rops d K (lin_pert th dth 0) X i k = linear_infer_p Rops d K th X i k.
+Proof.
+  unfold linear_infer_p, linear_infer, softmax, lin_pert. cbn [lW lb]. apply softmax_row_ext. intros c. apply affine_pert0.
+Qed.
+Lemma mlp_hidden_pert0 d h (X W1 dW1 : mat) (b1 db1 : nat -> R) i j :
+  mlp_hidden Rops d h (fun j' c => W1 j' c + 0 * dW1 j' c) (fun c => b1 c + 0 * db1 c) X i j = mlp_hidden Rops d h W1 b1 X i j.
+Proof. unfold mlp_hidden. f_equal. apply affine_pert0. Qed.
+Lemma mlp_logits_pert0 d h (X W1 dW1 W2 dW2 : mat) (b1 db1 b2 db2 : nat -> R) i k :
+  affine Rops h (mlp_hidden Rops d h (fun j' c => W1 j' c + 0 * dW1 j' c) (fun c => b1 c + 0 * db1 c) X)
+         (fun j c => W2 j c + 0 * dW2 j c) (fun c => b2 c + 0 * db2 c) i k
+  = affine Rops h (mlp_hidden Rops d h W1 b1 X) W2 b2 i k.
+Proof.
+  rewrite !affine_R. f_equal; [|ring]. apply rsum_ext. intros j Hj. rewrite mlp_hidden_pert0. ring.
+Qed.
+Lemma mlp_infer_pert0 d h K (X : mat) (th dth : @MlpP R) i k :
+  mlp_infer_p Rops d h K (mlp_pert th dth 0) X i k = mlp_infer_p Rops d h K th X i k.
+Proof.
+  unfold mlp_infer_p, mlp_infer, softmax, mlp_pert. cbn [mW1 mW2 mb1 mb2]. apply softmax_row_ext. intros c. apply mlp_logits_pert0.
+Qed.
+Lemma sparse_mlp_infer_pert0 d h K (X : mat) (th dth : @SMlpP R) i k :
+  sparse_mlp_infer_p Rops d h K (smlp_pert th dth 0) X i k = sparse_mlp_infer_p Rops d h K th X i k.
+Proof.
+  unfold sparse_mlp_infer_p, sparse_mlp_infer, softmax, smlp_pert. cbn [sW1 sW2 sWskip sb1 sb2]. apply softmax_row_ext. intros c.
+  cbn [nadd Rops]. rewrite mlp_logits_pert0. f_equal. rewrite !matmul_R. apply rsum_ext. intros j Hj. ring.
+Qed.
+
+(* C03 (d) composed with the backward passes: with the decoration the direction handed to the optimiser is
+   minus the gradient of   <g, Y> + (f/2) sum_CL ||y_a - y_b||^2 - (f/2) sum_ML ||y_a - y_b||^2   in the parameters *)
+Theorem linear_decorated_direction_is_gradient n d K f idx (X : mat) (th dth : @LinP R) (g : mat) ml cl :
+  (0 < K)%nat -> length idx = n ->
+  is_derive (fun t : R => inner n K g (linear_infer_p Rops d K (lin_pert th dth t) X)
+                          + pair_pen f idx K (linear_infer_p Rops d K (lin_pert th dth t) X) cl
+                          - pair_pen f idx K (linear_infer_p Rops d K (lin_pert th dth t) X) ml) 0
+            (- inner_lin d K (linear_step_grads Rops n d K th X
+                                (decorated_gradient Rops f idx n K (linear_infer_p Rops d K th X) ml cl g)) dth).
+Proof.
+  intros HK Ln. rewrite <- linear_adjoint.
+  apply (decorated_chain f idx n K (fun t => linear_infer_p Rops d K (lin_pert th dth t) X)
+           (linear_infer_p Rops d K th X) (linear_jvp d K X th dth) g ml cl Ln).
+  - intros i k _ _. apply linear_infer_pert0.
+  - intros i k Hi Hk. apply (linear_infer_derive n); assumption.
+Qed.
+Theorem mlp_decorated_direction_is_gradient n d h K f idx (X : mat) (th dth : @MlpP R) (g : mat) ml cl :
+  (0 < K)%nat -> length idx = n -> relu_off_kink n h (preact d X th) ->
+  is_derive (fun t : R => inner n K g (mlp_infer_p Rops d h K (mlp_pert th dth t) X)
+                          + pair_pen f idx K (mlp_infer_p Rops d h K (mlp_pert th dth t) X) cl
+                          - pair_pen f idx K (mlp_infer_p Rops d h K (mlp_pert th dth t) X) ml) 0
+            (- inner_mlp d h K (mlp_step_grads Rops n d h K th X
+                                  (decorated_gradient Rops f idx n K (mlp_infer_p Rops d h K th X) ml cl g)) dth).
+Proof.
+  intros HK Ln Hoff. rewrite <- (mlp_adjoint n d h K X th _ dth Hoff).
+  apply (decorated_chain f idx n K (fun t => mlp_infer_p Rops d h K (mlp_pert th dth t) X)
+           (mlp_infer_p Rops d h K th X) (mlp_jvp n d h K X th dth) g ml cl Ln).
+  - intros i k _ _. apply mlp_infer_pert0.
+  - intros i k Hi Hk. apply mlp_infer_derive; assumption.
+Qed.
+Theorem sparse_mlp_decorated_direction_is_gradient n d h K f idx (X : mat) (th dth : @SMlpP R) (g : mat) ml cl :
+  (0 < K)%nat -> length idx = n -> relu_off_kink n h (preact d X (smlp_core th)) ->
+  is_derive (fun t : R => inner n K g (sparse_mlp_infer_p Rops d h K (smlp_pert th dth t) X)
+                          + pair_pen f idx K (sparse_mlp_infer_p Rops d h K (smlp_pert th dth t) X) cl
+                          - pair_pen f idx K (sparse_mlp_infer_p Rops d h K (smlp_pert th dth t) X) ml) 0
+            (- inner_smlp d h K (sparse_mlp_step_grads Rops n d h K th X
+                                   (decorated_gradient Rops f idx n K (sparse_mlp_infer_p Rops d h K th X) ml cl g)) dth).
+Proof.
+  intros HK Ln Hoff. rewrite <- sparse_mlp_adjoint.
+  apply (decorated_chain f idx n K (fun t => sparse_mlp_infer_p Rops d h K (smlp_pert th dth t) X)
+           (sparse_mlp_infer_p Rops d h K th X) (sparse_mlp_jvp n d h K X th dth) g ml cl Ln).
+  - intros i k _ _. apply sparse_mlp_infer_pert0.
+  - intros i k Hi Hk. apply sparse_mlp_infer_derive; assumption.
+Qed.
+Theorem categorical_decorated_direction_is_gradient n K f idx (L dL g : mat) ml cl :
+  (0 < K)%nat -> length idx = n ->
+  is_derive (fun t : R => inner n K g (categorical_infer Rops K (fun i k => L i k + t * dL i k))
+                          + pair_pen f idx K (categorical_infer Rops K (fun i k => L i k + t * dL i k)) cl
+                          - pair_pen f idx K (categorical_infer Rops K (fun i k => L i k + t * dL i k)) ml) 0
+            (- inner n K (categorical_step_grads Rops K L
+                            (decorated_gradient Rops f idx n K (categorical_infer Rops K L) ml cl g)) dL).
+Proof.
+  intros HK Ln. rewrite <- categorical_adjoint.
+  apply (decorated_chain f idx n K (fun t => categorical_infer Rops K (fun i k => L i k + t * dL i k))
+           (categorical_infer Rops K L) (categorical_jvp K L dL) g ml cl Ln).
+  - intros i k _ _. unfold categorical_infer, softmax. apply softmax_row_ext. intros c. ring.
+  - intros i k Hi Hk. apply (categorical_infer_derive n); assumption.
+Qed.
+
+(* ================================================================== Part E: row discipline (every number system) *)
+(* Matrices are total functions; the batch is the rows 0..n-1.  Changing the data X or the upstream gradient G on
+   any other row leaves every direction unchanged: each direction is a sum over the batch's rows only. *)
+Section RowDiscipline.
+Context {T : Type} (o : NumOps T).
+Definition rows_agree (n : nat) (A B : nat -> nat -> T) : Prop := forall i, (i < n)%nat -> forall k, A i k = B i k.
+
+Lemma tau_hat_rows n K Y Y' G G' : rows_agree n Y Y' -> rows_agree n G G' ->
+  rows_agree n (tau_hat o K Y G) (tau_hat o K Y' G').
+Proof.
+  intros HY HG i Hi k. unfold tau_hat. rewrite (HY i Hi k), (HG i Hi k). f_equal. f_equal.
+  apply bsum_ext. intros c _. rewrite (HY i Hi c), (HG i Hi c). reflexivity.
+Qed.
+Lemma tmatmul_rows n A A' B B' : rows_agree n A A' -> rows_agree n B B' ->
+  forall j k, tmatmul o n A B j k = tmatmul o n A' B' j k.
+Proof. intros HA HB j k. unfold tmatmul. apply bsum_ext. intros i Hi. rewrite (HA i Hi j), (HB i Hi k). reflexivity. Qed.
+Lemma colsum_rows n A A' : rows_agree n A A' -> forall k, colsum o n A k = colsum o n A' k.
+Proof. intros HA k. unfold colsum. apply bsum_ext. intros i Hi. apply HA, Hi. Qed.
+Lemma affine_rows n d X X' W b : rows_agree n X X' -> rows_agree n (affine o d X W b) (affine o d X' W b).
+Proof. intros HX i Hi k. unfold affine. f_equal. apply bsum_ext. intros j _. rewrite (HX i Hi j). reflexivity. Qed.
+Lemma matmul_rows n d X X' W : rows_agree n X X' -> rows_agree n (matmul o d X W) (matmul o d X' W).
+Proof. intros HX i Hi k. unfold matmul. apply bsum_ext. intros j _. rewrite (HX i Hi j). reflexivity. Qed.
+Lemma softmax_rows_agree n K Z Z' : rows_agree n Z Z' -> rows_agree n (softmax o K Z) (softmax o K Z').
+Proof. intros HZ i Hi k. unfold softmax. apply softmax_row_ext. intros c. apply HZ, Hi. Qed.
+Lemma mlp_hidden_rows n d h W1 b1 X X' : rows_agree n X X' -> rows_agree n (mlp_hidden o d h W1 b1 X) (mlp_hidden o d h W1 b1 X').
+Proof. intros HX i Hi j. unfold mlp_hidden. f_equal. apply (affine_rows n d X X' W1 b1 HX i Hi j). Qed.
+Lemma mlp_backprop_rows n K tau tau' W2 H H' : rows_agree n tau tau' -> rows_agree n H H' ->
+  rows_agree n (mlp_backprop o K tau W2 H) (mlp_backprop o K tau' W2 H').
+Proof.
+  intros Ht HH i Hi j. unfold mlp_backprop, relu_mask. rewrite (HH i Hi j). f_equal.
+  apply bsum_ext. intros k _. rewrite (Ht i Hi k). reflexivity.
+Qed.
+
+Theorem linear_row_discipline n d K (p : @LinP T) X X' G G' : rows_agree n X X' -> rows_agree n G G' ->
+  (forall j k, lW (linear_step_grads o n d K p X G) j k = lW (linear_step_grads o n d K p X' G') j k) /\
+  (forall k, lb (linear_step_grads o n d K p X G) k = lb (linear_step_grads o n d K p X' G') k).
+Proof.
+  intros HX HG. unfold linear_step_grads, linear_compute_grads, linear_infer_p, linear_infer. cbn [lW lb].
+  assert (Ht : rows_agree n (tau_hat o K (softmax o K (affine o d X (lW p) (lb p))) G)
+                          (tau_hat o K (softmax o K (affine o d X' (lW p) (lb p))) G')).
+  { apply tau_hat_rows; [apply softmax_rows_agree, affine_rows, HX | exact HG]. }
+  split; intros; unfold mneg, vneg; f_equal; [apply tmatmul_rows | apply colsum_rows]; assumption.
+Qed.
+Theorem rim_row_discipline n d K reg (p : @LinP T) X X' G G' : rows_agree n X X' -> rows_agree n G G' ->
+  (forall j k, lW (rim_step_grads o n d K reg p X G) j k = lW (rim_step_grads o n d K reg p X' G') j k) /\
+  (forall k, lb (rim_step_grads o n d K reg p X G) k = lb (rim_step_grads o n d K reg p X' G') k).
+Proof.
+  intros HX HG. destruct (linear_row_discipline n d K p X X' G G' HX HG) as [HW Hb].
+  unfold rim_step_grads, rim_update_grads. cbn [lW lb]. split; intros; [rewrite HW; reflexivity | apply Hb].
+Qed.
+Theorem kernel_rim_row_discipline n nt K reg Kt (p : @LinP T) X X' G G' : rows_agree n X X' -> rows_agree n G G' ->
+  (forall j k, lW (kernel_rim_step_grads o n nt K reg Kt p X G) j k = lW (kernel_rim_step_grads o n nt K reg Kt p X' G') j k) /\
+  (forall k, lb (kernel_rim_step_grads o n nt K reg Kt p X G) k = lb (kernel_rim_step_grads o n nt K reg Kt p X' G') k).
+Proof.
+  intros HX HG. destruct (linear_row_discipline n nt K p X X' G G' HX HG) as [HW Hb].
+  unfold kernel_rim_step_grads, kernel_rim_compute_grads. cbn [lW lb].
+  unfold linear_step_grads in HW, Hb. split; intros; [rewrite HW; reflexivity | apply Hb].
+Qed.
+Theorem mlp_row_discipline n d h K (p : @MlpP T) X X' G G' : rows_agree n X X' -> rows_agree n G G' ->
+  let a := mlp_step_grads o n d h K p X G in let b := mlp_step_grads o n d h K p X' G' in
+  (forall j' j, mW1 a j' j = mW1 b j' j) /\ (forall j k, mW2 a j k = mW2 b j k) /\
+  (forall j, mb1 a j = mb1 b j) /\ (forall k, mb2 a k = mb2 b k).
+Proof.
+  intros HX HG. cbv zeta. unfold mlp_step_grads, mlp_compute_grads, mlp_infer_p, mlp_infer. cbn [mW1 mW2 mb1 mb2].
+  pose proof (mlp_hidden_rows n d h (mW1 p) (mb1 p) X X' HX) as HH.
+  assert (Ht : rows_agree n (tau_hat o K (softmax o K (affine o h (mlp_hidden o d h (mW1 p) (mb1 p) X) (mW2 p) (mb2 p))) G)
+                          (tau_hat o K (softmax o K (affine o h (mlp_hidden o d h (mW1 p) (mb1 p) X') (mW2 p) (mb2 p))) G')).
+  { apply tau_hat_rows; [apply softmax_rows_agree, affine_rows, HH | exact HG]. }
+  pose proof (mlp_backprop_rows n K _ _ (mW2 p) _ _ Ht HH) as Hb.
+  repeat split; intros; unfold mneg, vneg; f_equal; try apply tmatmul_rows; try apply colsum_rows; assumption.
+Qed.
+Theorem sparse_mlp_row_discipline n d h K (p : @SMlpP T) X X' G G' : rows_agree n X X' -> rows_agree n G G' ->
+  let a := sparse_mlp_step_grads o n d h K p X G in let b := sparse_mlp_step_grads o n d h K p X' G' in
+  (forall j' j, sW1 a j' j = sW1 b j' j) /\ (forall j k, sW2 a j k = sW2 b j k) /\ (forall j k, sWskip a j k = sWskip b j k) /\
+  (forall j, sb1 a j = sb1 b j) /\ (forall k, sb2 a k = sb2 b k).
+Proof.
+  intros HX HG. cbv zeta. unfold sparse_mlp_step_grads, sparse_mlp_compute_grads, sparse_mlp_infer_p, sparse_mlp_infer.
+  cbn [sW1 sW2 sWskip sb1 sb2].
+  pose proof (mlp_hidden_rows n d h (sW1 p) (sb1 p) X X' HX) as HH.
+  assert (Ht : rows_agree n
+     (tau_hat o K (softmax o K (fun i k => nadd o (affine o h (mlp_hidden o d h (sW1 p) (sb1 p) X) (sW2 p) (sb2 p) i k) (matmul o d X (sWskip p) i k))) G)
+     (tau_hat o K (softmax o K (fun i k => nadd o (affine o h (mlp_hidden o d h (sW1 p) (sb1 p) X') (sW2 p) (sb2 p) i k) (matmul o d X' (sWskip p) i k))) G')).
+  { apply tau_hat_rows; [|exact HG]. apply softmax_rows_agree. intros i Hi k.
+    rewrite (affine_rows n h _ _ (sW2 p) (sb2 p) HH i Hi k), (matmul_rows n d X X' (sWskip p) HX i Hi k). reflexivity. }
+  pose proof (mlp_backprop_rows n K _ _ (sW2 p) _ _ Ht HH) as Hb.
+  repeat split; intros; unfold mneg, vneg; f_equal; try apply tmatmul_rows; try apply colsum_rows; assumption.
+Qed.
+(* categorical: the direction of sample i's logits involves row i only *)
+Theorem categorical_row_discipline n K L L' G G' : rows_agree n L L' -> rows_agree n G G' ->
+  rows_agree n (categorical_step_grads o K L G) (categorical_step_grads o K L' G').
+Proof.
+  intros HL HG i Hi k. unfold categorical_step_grads, categorical_compute_grads, mneg, categorical_infer. f_equal.
+  apply (tau_hat_rows n K _ _ G G'); [apply softmax_rows_agree, HL | exact HG | exact Hi].
+Qed.
+End RowDiscipline.
+
+(* the adjoint identity pins every entry of the direction down: whatever satisfies it for every parameter
+   direction IS the model's direction (in particular no parameter's direction can depend on another
+   parameter's gradient) *)
+Theorem linear_direction_unique n d K (X : mat) (th cand : @LinP R) (g : mat) :
+  (forall dth, inner n K g (linear_jvp d K X th dth) = - inner_lin d K cand dth) ->
+  (forall j k, (j < d)%nat -> (k < K)%nat -> lW cand j k = lW (linear_step_grads Rops n d K th X g) j k) /\
+  (forall k, (k < K)%nat -> lb cand k = lb (linear_step_grads Rops n d K th X g) k).
+Proof.
+  intros H. split.
+  - intros j k Hj Hk. pose (dth := {| lW := unit_mat j k; lb := fun _ => 0 |} : @LinP R).
+    pose proof (H dth) as H1. rewrite (linear_adjoint n d K X th g dth) in H1. unfold inner_lin, dth in H1. cbn [lW lb] in H1.
+    rewrite !inner_unit, !inner_vec_zero_r in H1 by assumption. lra.
+  - intros k Hk. pose (dth := {| lW := fun _ _ => 0; lb := unit_vec k |} : @LinP R).
+    pose proof (H dth) as H1. rewrite (linear_adjoint n d K X th g dth) in H1. unfold inner_lin, dth in H1. cbn [lW lb] in H1.
+    rewrite !inner_vec_unit, !inner_zero_r in H1 by assumption. lra.
+Qed.
+Theorem mlp_direction_unique n d h K (X : mat) (th cand : @MlpP R) (g : mat) :
+  (forall dth, inner n K g (mlp_jvp n d h K X th dth) = - inner_mlp d h K cand dth) ->
+  let m := mlp_step_grads Rops n d h K th X g in
+  (forall j' j, (j' < d)%nat -> (j < h)%nat -> mW1 cand j' j = mW1 m j' j) /\
+  (forall j k, (j < h)%nat -> (k < K)%nat -> mW2 cand j k = mW2 m j k) /\
+  (forall j, (j < h)%nat -> mb1 cand j = mb1 m j) /\ (forall k, (k < K)%nat -> mb2 cand k = mb2 m k).
+Proof.
+  intros H. cbv zeta.
+  assert (E : forall dth, inner_mlp d h K cand dth = inner_mlp d h K (mlp_step_grads Rops n d h K th X g) dth).
+  { intros dth. pose proof (H dth) as H1. unfold mlp_jvp in H1. rewrite (mlp_adjoint_any n d h K X _ g th dth) in H1.
+    unfold mlp_step_grads. lra. }
+  repeat split.
+  - intros j' j Hj' Hj. pose proof (E {| mW1 := unit_mat j' j; mW2 := fun _ _ => 0; mb1 := fun _ => 0; mb2 := fun _ => 0 |}) as H1.
+    unfold inner_mlp in H1. cbn [mW1 mW2 mb1 mb2] in H1. rewrite !inner_unit, !inner_vec_zero_r, !inner_zero_r in H1 by assumption. lra.
+  - intros j k Hj Hk. pose proof (E {| mW1 := fun _ _ => 0; mW2 := unit_mat j k; mb1 := fun _ => 0; mb2 := fun _ => 0 |}) as H1.
+    unfold inner_mlp in H1. cbn [mW1 mW2 mb1 mb2] in H1. rewrite !inner_unit, !inner_vec_zero_r, !inner_zero_r in H1 by assumption. lra.
+  - intros j Hj. pose proof (E {| mW1 := fun _ _ => 0; mW2 := fun _ _ => 0; mb1 := unit_vec j; mb2 := fun _ => 0 |}) as H1.
+    unfold inner_mlp in H1. cbn [mW1 mW2 mb1 mb2] in H1. rewrite !inner_vec_unit, !inner_vec_zero_r, !inner_zero_r in H1 by assumption. lra.
+  - intros k Hk. pose proof (E {| mW1 := fun _ _ => 0; mW2 := fun _ _ => 0; mb1 := fun _ => 0; mb2 := unit_vec k |}) as H1.
+    unfold inner_mlp in H1. cbn [mW1 mW2 mb1 mb2] in H1. rewrite !inner_vec_unit, !inner_vec_zero_r, !inner_zero_r in H1 by assumption. lra.
+Qed.
+
+(* ================================================================== Douglas *)
+(* ---- leaf scores: the logits are leaf @ S, linear in S *)
+Theorem douglas_leaf_adjoint n L K (leafm S Y g dS : mat) :
+  inner n K g (smjvp K Y (fun i k => rsum L (fun l => leafm i l * dS l k)))
+  = - inner L K (mneg Rops (tmatmul Rops n leafm (tau_hat Rops K Y g))) dS.
+Proof.
+  rewrite softmax_adjoint, matmul_adjoint, <- inner_neg_l. apply inner_ext; [|reflexivity].
+  intros l k _ _. rewrite mneg_R, tmatmul_R. ring.
+Qed.
+
+(* ---- cut points of one feature f.  B = c + 1 bins, bin = self._all_binnings[f], order = self._all_orders[f] *)
+(* b = cumsum([0, -sorted cuts]): entry m is -(sum of the m smallest cuts); sorted[q] = cuts[order[q]] *)
+Definition dg_dbias (order : list nat) (dc : nat -> R) (m : nat) : R := - rsum m (fun q => dc (nth q order 0%nat)).
+(* differential of the binning softmax((x W + b) / temperature) *)
+Definition dg_dbin (B : nat) (temp : R) (bin : mat) (order : list nat) (dc : nat -> R) : mat :=
+  fun i m => smjvp_row B (bin i) (fun m' => dg_dbias order dc m' / temp) m.
+(* differential of the leaf memberships: only the factor of feature f moves; `rest` is the product of the other factors *)
+Definition dg_dleaf (F B f : nat) (dbin rest : mat) : mat := fun i l => dbin i (digit F B f l) * rest i l.
+Definition dg_cut_jvp (F c L K f : nat) (temp : R) (S bin rest : mat) (order : list nat) (Y : mat) (dc : nat -> R) : mat :=
+  smjvp K Y (fun i k => rsum L (fun l => dg_dleaf F (c + 1) f (dg_dbin (c + 1) temp bin order dc) rest i l * S l k)).
+
+(* grouping a sum over leaves by the bin of feature f *)
+Lemma rsum_group L B (dgt : nat -> nat) (phi : nat -> R) (psi : nat -> R) : (forall l, (l < L)%nat -> (dgt l < B)%nat) ->
+  rsum L (fun l => phi (dgt l) * psi l) = rsum B (fun m => phi m * rsum L (fun l => if (dgt l =? m)%nat then psi l else 0)).
+Proof.
+  intros Hd.
+  rewrite (rsum_ext B _ (fun m => rsum L (fun l => if (dgt l =? m)%nat then phi (dgt l) * psi l else 0))).
+  2:{ intros m Hm. rewrite <- rsum_scal. apply rsum_ext. intros l Hl. destruct (Nat.eqb_spec (dgt l) m) as [->|]; ring. }
+  rewrite rsum_swap. apply rsum_ext. intros l Hl. symmetry.
+  rewrite (rsum_single B (dgt l)); [rewrite Nat.eqb_refl; reflexivity | apply Hd, Hl |].
+  intros m Hm Hne. destruct (Nat.eqb_spec (dgt l) m); [congruence | reflexivity].
+Qed.
+(* first term peeled off *)
+Lemma rsum_peel k (u : nat -> R) : rsum (S k) u = u 0%nat + rsum k (fun r => u (S r)).
+Proof. induction k as [|k IHk]; [rewrite !rsum_S, !rsum_0; ring|]. rewrite rsum_S, IHk, rsum_S. ring. Qed.
+(* reversed partial sums: sum_{r < c-q} f(c-1-r) = sum_{q <= m < c} f m *)
+Lemma rsum_rev_tail c q (f : nat -> R) :
+  rsum (c - q) (fun r => f (c - 1 - r)%nat) = rsum c (fun m => if (q <=? m)%nat then f m else 0).
+Proof.
+  induction c as [|c IH]; [reflexivity|].
+  rewrite (rsum_S c). destruct (Nat.leb_spec q c) as [Hle|Hgt].
+  - replace (S c - q)%nat with (S (c - q)) by lia. rewrite rsum_peel, <- IH.
+    replace (S c - 1 - 0)%nat with c by lia.
+    rewrite (rsum_ext (c - q) (fun r => f (S c - 1 - S r)%nat) (fun r => f (c - 1 - r)%nat)); [ring|].
+    intros r Hr. f_equal. lia.
+  - replace (S c - q)%nat with 0%nat by lia. rewrite rsum_0.
+    rewrite rsum_zero; [ring|]. intros m Hm. destruct (Nat.leb_spec q m); [lia | reflexivity].
+Qed.
+
+(* `order` lists 0..c-1 in some order; then np.argsort(order) is its inverse (pos_in) *)
+Definition is_order (c : nat) (order : list nat) : Prop :=
+  length order = c /\ NoDup order /\ forall p, In p order -> (p < c)%nat.
+Lemma pos_in_nth order q : NoDup order -> (q < length order)%nat -> pos_in (nth q order 0%nat) order = q.
+Proof.
+  revert q. induction order as [|x r IH]; intros q Hnd Hq; [cbn in Hq; lia|].
+  inversion Hnd as [|? ? Hx Hnd']; subst. destruct q as [|q]; cbn [nth pos_in].
+  - rewrite Nat.eqb_refl. reflexivity.
+  - cbn [length] in Hq. destruct (Nat.eqb_spec x (nth q r 0%nat)) as [E|_].
+    + exfalso. apply Hx. rewrite E. apply nth_In. lia.
+    + rewrite IH; [reflexivity | exact Hnd' | lia].
+Qed.
+Lemma is_order_perm_on c order : is_order c order -> perm_on c (fun q => nth q order 0%nat).
+Proof.
+  intros (Hl & Hnd & Hr). split.
+  - intros q Hq. apply Hr, nth_In. lia.
+  - intros q q' Hq Hq' E. rewrite <- (pos_in_nth order q Hnd), <- (pos_in_nth order q' Hnd) by lia. rewrite E. reflexivity.
+Qed.
+
+Theorem douglas_cut_adjoint n F c L K f temp (Sc leafm bin rest : mat) (order : list nat) (Y g : mat) (dc : nat -> R) :
+  temp <> 0 -> is_order c order ->
+  (forall l, (l < L)%nat -> (digit F (c + 1) f l < c + 1)%nat) ->
+  (forall i l, (i < n)%nat -> (l < L)%nat -> leafm i l = bin i (digit F (c + 1) f l) * rest i l) ->
+  inner n K g (dg_cut_jvp F c L K f temp Sc bin rest order Y dc)
+  = - inner_vec c (dg_cut_direction Rops n F c L K f temp Sc leafm bin order (tau_hat Rops K Y g)) dc.
+Proof.
+  intros Htemp Hord Hdig Hleaf. unfold dg_cut_jvp. rewrite softmax_adjoint.
+  set (tau := tau_hat Rops K Y g). set (B := (c + 1)%nat) in *.
+  set (ts := fun i l => rsum K (fun k => tau i k * Sc l k)).
+  set (dbin := dg_dbin B temp bin order dc).
+  set (R0 := fun i m => rsum L (fun l => if (digit F B f l =? m)%nat then rest i l * ts i l else 0)).
+  (* step 1: <tau, dleaf S> = sum_i sum_m dbin i m * R0 i m *)
+  assert (E1 : inner n K tau (fun i k => rsum L (fun l => dg_dleaf F B f dbin rest i l * Sc l k))
+             = rsum n (fun i => rsum B (fun m => dbin i m * R0 i m))).
+  { rewrite (matmul_adjoint_r n L K tau (dg_dleaf F B f dbin rest) Sc). unfold inner. apply rsum_ext. intros i Hi.
+    unfold R0. rewrite <- (rsum_group L B (digit F B f) (fun m => dbin i m) (fun l => rest i l * ts i l) Hdig).
+    apply rsum_ext. intros l Hl. unfold dg_dleaf, ts. ring. }
+  rewrite E1. clear E1.
+  (* step 2: the model's bin_grad in terms of R0 (the guarded division cancels against the factor bin) *)
+  set (bb := dg_binning_backprop Rops K tau Sc leafm).
+  set (sg := dg_softmax_grad Rops F B L f bb bin).
+  assert (Esg : forall i m, (i < n)%nat -> bin i m * sg i m = bin i m * R0 i m).
+  { intros i m Hi. unfold sg, dg_softmax_grad. cbn [neqb n0 ndiv Rops]. rewrite bsum_rsum.
+    assert (Es : rsum L (fun l => if (digit F B f l =? m)%nat then bb i l else 0) = bin i m * R0 i m).
+    { unfold R0. rewrite <- rsum_scal. apply rsum_ext. intros l Hl.
+      destruct (Nat.eqb_spec (digit F B f l) m) as [E|_]; [|ring].
+      unfold bb, dg_binning_backprop. cbn [nmul Rops]. rewrite bsum_rsum. fold (ts i l).
+      rewrite (Hleaf i l Hi Hl), E. ring. }
+    rewrite Es. unfold Reqb. destruct (Req_EM_T (bin i m) 0) as [Ez|Hnz]; [rewrite Ez; ring | field; exact Hnz]. }
+  set (bg := dg_bin_grad Rops B temp bin sg).
+  assert (Ebg : forall i m, (i < n)%nat -> bg i m = bin i m * (R0 i m - rsum B (fun c' => bin i c' * R0 i c')) / temp).
+  { intros i m Hi. unfold bg, dg_bin_grad. cbn [ndiv nmul nsub Rops]. rewrite bsum_rsum.
+    rewrite (rsum_ext B (fun c' => bin i c' * sg i c') (fun c' => bin i c' * R0 i c')) by (intros; apply Esg, Hi).
+    f_equal. rewrite Rmult_minus_distr_l, (Esg i m Hi). ring. }
+  (* step 3: softmax adjoint on the bins, then collect over the samples *)
+  assert (E2 : rsum n (fun i => rsum B (fun m => dbin i m * R0 i m))
+             = rsum B (fun m => rsum n (fun i => bg i m) * dg_dbias order dc m)).
+  { transitivity (rsum n (fun i => rsum B (fun m => bg i m * dg_dbias order dc m))).
+    2:{ rewrite rsum_swap. apply rsum_ext. intros m Hm. apply rsum_scal_r. }
+    apply rsum_ext. intros i Hi.
+    rewrite (rsum_ext B (fun m => dbin i m * R0 i m) (fun m => R0 i m * smjvp_row B (bin i) (fun m' => dg_dbias order dc m' / temp) m))
+      by (intros; unfold dbin, dg_dbin; ring).
+    rewrite (softmax_adjoint_row B (bin i) (R0 i) (fun m' => dg_dbias order dc m' / temp)).
+    apply rsum_ext. intros m Hm. rewrite (Ebg i m Hi). field. exact Htemp. }
+  rewrite E2. clear E2.
+  (* step 4: the constant bin 0 has no bias; cumulative sums; un-permutation *)
+  assert (EB : B = S c) by (unfold B; lia).
+  rewrite EB at 1. rewrite rsum_peel. unfold dg_dbias at 1. rewrite rsum_0, Ropp_0, Rmult_0_r, Rplus_0_l.
+  set (bias_grad := dg_bias_grad Rops n bg).
+  rewrite (rsum_ext c _ (fun m' => rsum c (fun q => if (q <=? m')%nat then - (bias_grad m' * dc (nth q order 0%nat)) else 0))).
+  2:{ intros m' Hm'. unfold dg_dbias. unfold bias_grad, dg_bias_grad. change (bsum Rops n) with (rsum n).
+      replace (rsum (S m') (fun q => dc (nth q order 0%nat))) with (rsum c (fun q => if (q <=? m')%nat then dc (nth q order 0%nat) else 0)).
+      2:{ clear - Hm'. revert m' Hm'. induction c as [|c IH]; intros m' Hm'; [lia|]. rewrite rsum_S.
+          destruct (Nat.eq_dec m' c) as [->|Hne].
+          - rewrite Nat.leb_refl. rewrite rsum_S. f_equal. apply rsum_ext. intros q Hq. destruct (Nat.leb_spec q c); [reflexivity | lia].
+          - destruct (Nat.leb_spec c m'); [lia|]. rewrite IH by lia. ring. }
+      set (A := rsum n (fun i => bg i (S m'))).
+      rewrite (rsum_ext c (fun q => if (q <=? m')%nat then - (A * dc (nth q order 0%nat)) else 0)
+                 (fun q => (- A) * (if (q <=? m')%nat then dc (nth q order 0%nat) else 0)))
+        by (intros q Hq; destruct (q <=? m')%nat; ring).
+      rewrite rsum_scal. ring. }
+  rewrite rsum_swap.
+  set (cg := dg_cumsum_grad Rops c bias_grad).
+  rewrite (rsum_ext c _ (fun q => dc (nth q order 0%nat) * cg q)).
+  2:{ intros q Hq. unfold cg, dg_cumsum_grad. rewrite nneg_R. change (bsum Rops (c - q)) with (rsum (c - q)). rewrite rsum_rev_tail.
+      rewrite <- rsum_opp, <- rsum_scal. apply rsum_ext. intros m' Hm'. destruct (q <=? m')%nat; ring. }
+  destruct Hord as (Hl & Hnd & Hr).
+  rewrite (rsum_ext c _ (fun q => (fun p => dc p * cg (pos_in p order)) (nth q order 0%nat))).
+  2:{ intros q Hq. cbn beta. rewrite pos_in_nth by (try exact Hnd; lia). reflexivity. }
+  rewrite (rsum_perm c (fun q => nth q order 0%nat) (fun p => dc p * cg (pos_in p order)) (is_order_perm_on c order (conj Hl (conj Hnd Hr)))).
+  unfold inner_vec. rewrite <- rsum_opp. apply rsum_ext. intros p Hp.
+  unfold dg_cut_direction. rewrite nneg_R. fold tau. fold B. replace (c + 1)%nat with B by reflexivity.
+  fold bb. fold sg. fold bg. fold bias_grad. fold cg. ring.
+Qed.
+
+(* ---- the leaf memberships are the Kronecker product of the per-feature binnings (row-major leaf index) *)
+Fixpoint prod_bins (F : nat) (g : nat -> R) : R := match F with O => 1 | S m => prod_bins m g * g m end.
+Definition leaf_prod (F B : nat) (bins : nat -> mat) : mat :=
+  fun i l => prod_bins F (fun f' => bins f' i (digit F B f' l)).
+Definition rest_prod (F B f : nat) (bins : nat -> mat) : mat :=
+  fun i l => prod_bins F (fun f' => if (f' =? f)%nat then 1 else bins f' i (digit F B f' l)).
+Lemma prod_bins_ext F g g' : (forall f, (f < F)%nat -> g f = g' f) -> prod_bins F g = prod_bins F g'.
+Proof. induction F as [|F IH]; intros H; [reflexivity|]. cbn [prod_bins]. rewrite IH, H; auto. Qed.
+Lemma prod_bins_split F f g : (f < F)%nat ->
+  prod_bins F g = g f * prod_bins F (fun f' => if (f' =? f)%nat then 1 else g f').
+Proof.
+  induction F as [|F IH]; intros Hf; [lia|]. cbn [prod_bins].
+  destruct (Nat.eq_dec f F) as [->|Hne].
+  - rewrite Nat.eqb_refl.
+    rewrite (prod_bins_ext F (fun f' => if (f' =? F)%nat then 1 else g f') g).
+    2:{ intros f' Hf'. destruct (Nat.eqb_spec f' F); [lia | reflexivity]. } ring.
+  - rewrite IH by lia. destruct (Nat.eqb_spec F f); [lia|]. ring.
+Qed.
+Lemma leaf_prod_split F B f bins i l : (f < F)%nat ->
+  leaf_prod F B bins i l = bins f i (digit F B f l) * rest_prod F B f bins i l.
+Proof. intros Hf. unfold leaf_prod, rest_prod. apply (prod_bins_split F f (fun f' => bins f' i (digit F B f' l)) Hf). Qed.
+Lemma digit_lt F c f l : (digit F (c + 1) f l < c + 1)%nat.
+Proof. unfold digit. apply Nat.mod_upper_bound. lia. Qed.
+
+Lemma inner_rsum_r n K F (A : mat) (M : nat -> mat) :
+  inner n K A (fun i k => rsum F (fun f => M f i k)) = rsum F (fun f => inner n K A (M f)).
+Proof.
+  induction F as [|F IH].
+  - rewrite rsum_0. apply inner_zero_r.
+  - rewrite rsum_S, <- IH, <- inner_plus_r. apply inner_ext; [reflexivity|]. intros i k _ _. apply (rsum_S F (fun f => M f i k)).
+Qed.
+Lemma smjvp_plus K (Y A Bm : mat) i k :
+  smjvp K Y (fun i k => A i k + Bm i k) i k = smjvp K Y A i k + smjvp K Y Bm i k.
+Proof.
+  unfold smjvp, smjvp_row.
+  rewrite (rsum_ext K (fun c => Y i c * (A i c + Bm i c)) (fun c => Y i c * A i c + Y i c * Bm i c)) by (intros; ring).
+  rewrite rsum_plus. ring.
+Qed.
+
+(* Differential of Douglas's logits leaf(cuts) @ S for a simultaneous direction (dS, dcs 0, ..., dcs (F-1)):
+   the sum of the partial differentials (product rule over the features' factors) *)
+Definition douglas_dlogits (F c K : nat) (temp : R) (Sc leafm : mat) (bins : nat -> mat) (orders : nat -> list nat)
+  (dS : mat) (dcs : nat -> nat -> R) : mat :=
+  fun i k => rsum ((c + 1) ^ F) (fun l => leafm i l * dS l k)
+           + rsum F (fun f => rsum ((c + 1) ^ F) (fun l =>
+               dg_dleaf F (c + 1) f (dg_dbin (c + 1) temp (bins f) (orders f) (dcs f)) (rest_prod F (c + 1) f bins) i l * Sc l k)).
+Definition douglas_jvp (F c K : nat) (temp : R) (Sc leafm : mat) (bins : nat -> mat) (orders : nat -> list nat) (Y : mat)
+  (dS : mat) (dcs : nat -> nat -> R) : mat := smjvp K Y (douglas_dlogits F c K temp Sc leafm bins orders dS dcs).
+
+(* C03 (b), Douglas: adjoint identity for the leaf scores and every feature's cut points, any n_cuts, any sort
+   order (the argsort un-permutation), with the guarded division by the bin memberships *)
+Theorem douglas_adjoint n F c K temp (Sc leafm : mat) (bins : nat -> mat) (orders : nat -> list nat) (Y g dS : mat)
+  (dcs : nat -> nat -> R) :
+  temp <> 0 -> (forall f, (f < F)%nat -> is_order c (orders f)) ->
+  (forall i l, (i < n)%nat -> (l < (c + 1) ^ F)%nat -> leafm i l = leaf_prod F (c + 1) bins i l) ->
+  let grads := douglas_compute_grads Rops n F c K temp Sc leafm bins orders Y g in
+  inner n K g (douglas_jvp F c K temp Sc leafm bins orders Y dS dcs)
+  = - (inner ((c + 1) ^ F) K (fst grads) dS + rsum F (fun f => inner_vec c (snd grads f) (dcs f))).
+Proof.
+  intros Htemp Hord Hleaf. cbv zeta. unfold douglas_jvp, douglas_dlogits.
+  set (L := ((c + 1) ^ F)%nat) in *.
+  rewrite softmax_adjoint.
+  rewrite (inner_plus_r n K (tau_hat Rops K Y g) (fun i k => rsum L (fun l => leafm i l * dS l k))).
+  rewrite <- softmax_adjoint, (douglas_leaf_adjoint n L K leafm Sc Y g dS).
+  rewrite (inner_rsum_r n K F (tau_hat Rops K Y g)).
+  rewrite (rsum_ext F _ (fun f => - inner_vec c (snd (douglas_compute_grads Rops n F c K temp Sc leafm bins orders Y g) f) (dcs f))).
+  2:{ intros f Hf. rewrite <- softmax_adjoint.
+      pose proof (douglas_cut_adjoint n F c L K f temp Sc leafm (bins f) (rest_prod F (c + 1) f bins) (orders f) Y g (dcs f)
+                    Htemp (Hord f Hf) (fun l _ => digit_lt F c f l)) as H.
+      unfold dg_cut_jvp in H. rewrite H.
+      - reflexivity.
+      - intros i l Hi Hl. rewrite (Hleaf i l Hi Hl). apply leaf_prod_split, Hf. }
+  rewrite rsum_opp. unfold douglas_compute_grads. cbn [fst snd]. fold L. ring.
+Qed.
+
+(* derivative in the leaf scores (the logits are linear in them) *)
+Theorem douglas_leaf_direction_is_gradient n F c K temp (Sc dS leafm : mat) (bins : nat -> mat) (orders : nat -> list nat) (g : mat) :
+  (0 < K)%nat ->
+  is_derive (fun t : R => inner n K g (softmax Rops K (matmul Rops ((c + 1) ^ F) leafm (fun l k => Sc l k + t * dS l k)))) 0
+            (- inner ((c + 1) ^ F) K
+                 (fst (douglas_compute_grads Rops n F c K temp Sc leafm bins orders
+                         (softmax Rops K (matmul Rops ((c + 1) ^ F) leafm Sc)) g)) dS).
+Proof.
+  intros HK. set (L := ((c + 1) ^ F)%nat). unfold douglas_compute_grads. cbn [fst]. fold L.
+  rewrite <- (douglas_leaf_adjoint n L K leafm Sc).
+  apply (dR_inner n K g (fun t => softmax Rops K (matmul Rops L leafm (fun l k => Sc l k + t * dS l k)))).
+  apply (dR_softmax n K (fun t => matmul Rops L leafm (fun l k => Sc l k + t * dS l k)) (matmul Rops L leafm Sc)
+           (fun i k => rsum L (fun l => leafm i l * dS l k)) HK).
+  - intros i c0. rewrite !matmul_R. apply rsum_ext. intros l Hl. ring.
+  - intros i k _ _. apply (dR_ext (fun t : R => rsum L (fun l => leafm i l * (Sc l k + t * dS l k)))); [intros; reflexivity|].
+    apply (dR_rsum L (fun l t => leafm i l * (Sc l k + t * dS l k))). intros l Hl. apply dR_lin_scal.
+Qed.
+
+(* ---- derivative in one feature's cut points, the sort order being held fixed.
+   (The order returned by argsort is locally constant when the cut points are pairwise distinct; that
+   step is not proved here, hence the theorem built on this lemma is named _partial.) *)
+Definition dg_bin_logit (temp x : R) (order : list nat) (cuts : nat -> R) (m : nat) : R :=
+  (x * INR (m + 1) + - rsum m (fun q => cuts (nth q order 0%nat))) / temp.
+Definition dg_bins_fixed (B : nat) (temp : R) (x : nat -> R) (order : list nat) (cuts : nat -> R) : mat :=
+  fun i m => softmax_row Rops B (dg_bin_logit temp (x i) order cuts) m.
+
+Lemma dg_bin_logit_derive temp x order (cuts dc : nat -> R) m :
+  is_derive (fun t : R => dg_bin_logit temp x order (fun p => cuts p + t * dc p) m) 0 (dg_dbias order dc m / temp).
+Proof.
+  unfold dg_bin_logit, dg_dbias. apply dR_divc.
+  eapply dR_val; [|apply dR_plus; [apply (dR_const (x * INR (m + 1)) 0)
+                                   | apply dR_opp, (dR_rsum m (fun q t => cuts (nth q order 0%nat) + t * dc (nth q order 0%nat)));
+                                     intros q Hq; apply dR_lin]].
+  eqR. ring.
+Qed.
+Lemma dg_bin_logit_pert0 temp x order (cuts dc : nat -> R) m :
+  dg_bin_logit temp x order (fun p => cuts p + 0 * dc p) m = dg_bin_logit temp x order cuts m.
+Proof. unfold dg_bin_logit. f_equal. f_equal. f_equal. apply rsum_ext. intros q Hq. ring. Qed.
+
+Theorem douglas_cut_direction_is_gradient_fixed_order n F c K f temp (Sc rest : mat) (x : nat -> R) (order : list nat)
+  (cuts dc : nat -> R) (g : mat) :
+  (0 < K)%nat -> temp <> 0 -> is_order c order ->
+  let B := (c + 1)%nat in let L := (B ^ F)%nat in
+  let binf := fun cu => dg_bins_fixed B temp x order cu in
+  let leaff := fun cu i l => binf cu i (digit F B f l) * rest i l in
+  let Yf := fun cu => softmax Rops K (matmul Rops L (leaff cu) Sc) in
+  is_derive (fun t : R => inner n K g (Yf (fun p => cuts p + t * dc p))) 0
+            (- inner_vec c (dg_cut_direction Rops n F c L K f temp Sc (leaff cuts) (binf cuts) order (tau_hat Rops K (Yf cuts) g)) dc).
+Proof.
+  intros HK Htemp Hord. cbv beta zeta. set (B := (c + 1)%nat). set (L := (B ^ F)%nat).
+  set (bin0 := dg_bins_fixed B temp x order cuts).
+  set (leaf0 := fun i l => bin0 i (digit F B f l) * rest i l).
+  set (Y0 := softmax Rops K (matmul Rops L leaf0 Sc)).
+  rewrite <- (douglas_cut_adjoint n F c L K f temp Sc leaf0 bin0 rest order Y0 g dc Htemp Hord
+                (fun l _ => digit_lt F c f l) (fun i l _ _ => eq_refl)).
+  unfold dg_cut_jvp. fold B.
+  apply (dR_inner n K g (fun t => softmax Rops K (matmul Rops L
+            (fun i l => dg_bins_fixed B temp x order (fun p => cuts p + t * dc p) i (digit F B f l) * rest i l) Sc))).
+  apply (dR_softmax n K
+           (fun t => matmul Rops L (fun i l => dg_bins_fixed B temp x order (fun p => cuts p + t * dc p) i (digit F B f l) * rest i l) Sc)
+           (matmul Rops L leaf0 Sc)
+           (fun i k => rsum L (fun l => dg_dleaf F B f (dg_dbin B temp bin0 order dc) rest i l * Sc l k)) HK).
+  - intros i k. rewrite !matmul_R. apply rsum_ext. intros l Hl. unfold leaf0, bin0, dg_bins_fixed.
+    rewrite (softmax_row_ext Rops B _ (dg_bin_logit temp (x i) order cuts) (digit F B f l)) by (intros; apply dg_bin_logit_pert0).
+    reflexivity.
+  - intros i k Hi _.
+    apply (dR_ext (fun t : R => rsum L (fun l => (dg_bins_fixed B temp x order (fun p => cuts p + t * dc p) i (digit F B f l) * rest i l) * Sc l k)));
+      [intros; reflexivity|].
+    apply (dR_rsum L (fun l t => (dg_bins_fixed B temp x order (fun p => cuts p + t * dc p) i (digit F B f l) * rest i l) * Sc l k)).
+    intros l Hl. unfold dg_dleaf.
+    apply (dR_ext (fun t : R => (rest i l * Sc l k) * dg_bins_fixed B temp x order (fun p => cuts p + t * dc p) i (digit F B f l))); [intros; ring|].
+    eapply dR_val; [|apply dR_scal].
+    2:{ unfold dg_bins_fixed.
+        apply (softmax_row_derive B (fun m t => dg_bin_logit temp (x i) order (fun p => cuts p + t * dc p) m)
+                 (fun m => dg_dbias order dc m / temp) (digit F B f l)); [unfold B; lia | apply digit_lt |].
+        intros m Hm. apply dg_bin_logit_derive. }
+    eqR. unfold dg_dbin, bin0, dg_bins_fixed, smjvp_row.
+    rewrite (softmax_row_ext Rops B (fun c0 => dg_bin_logit temp (x i) order (fun p => cuts p + 0 * dc p) c0)
+               (dg_bin_logit temp (x i) order cuts) (digit F B f l)) by (intros; apply dg_bin_logit_pert0).
+    rewrite (rsum_ext B (fun c0 => softmax_row Rops B (fun c1 => dg_bin_logit temp (x i) order (fun p => cuts p + 0 * dc p) c1) c0 * (dg_dbias order dc c0 / temp))
+               (fun c0 => softmax_row Rops B (dg_bin_logit temp (x i) order cuts) c0 * (dg_dbias order dc c0 / temp))).
+    2:{ intros c0 Hc0. rewrite (softmax_row_ext Rops B (fun c1 => dg_bin_logit temp (x i) order (fun p => cuts p + 0 * dc p) c1)
+                                   (dg_bin_logit temp (x i) order cuts) c0) by (intros; apply dg_bin_logit_pert0). reflexivity. }
+    ring.
+Qed.
+
+(* ================================================================== statements used by Props/C03.v *)
+Lemma rim_adjoint n d K reg (X : mat) (th : @LinP R) (g : mat) (dth : @LinP R) :
+  inner n K g (linear_jvp d K X th dth) - inner d K (fun j k => 2 * reg * lW th j k) (lW dth)
+  = - inner_lin d K (rim_step_grads Rops n d K reg th X g) dth.
+Proof. unfold rim_step_grads. rewrite rim_grads_split, (linear_adjoint n d K X th g dth). ring. Qed.
+Lemma kernel_rim_adjoint n nt K reg (Kt X : mat) (th : @LinP R) (g : mat) (dth : @LinP R) :
+  inner n K g (linear_jvp nt K X th dth)
+  - inner nt K (fun j k => 2 * reg * rsum nt (fun l => Kt j l * lW th l k)) (lW dth)
+  = - inner_lin nt K (kernel_rim_step_grads Rops n nt K reg Kt th X g) dth.
+Proof.
+  unfold kernel_rim_step_grads. rewrite kernel_rim_grads_split. unfold linear_jvp.
+  rewrite (linear_adjoint_any n nt K X (linear_infer_p Rops nt K th X) g dth). ring.
+Qed.
+
+(* The formula the code used before the repair "back-propagate MLP gradients through the output weights W2_,
+   not through their gradient": backprop_grad = tau_hat_grad @ W2_grad.T.  It violates the adjoint identity —
+   the identity is not vacuous, it is exactly what that defect broke. *)
+Definition mlp_compute_grads_prefix (n K : nat) (H X Y G : mat) : @MlpP R :=
+  let tau := tau_hat Rops K Y G in
+  let W2g := tmatmul Rops n H tau in
+  let bp := mlp_backprop Rops K tau W2g H in
+  {| mW1 := mneg Rops (tmatmul Rops n X bp); mW2 := mneg Rops W2g;
+     mb1 := vneg Rops (colsum Rops n bp); mb2 := vneg Rops (colsum Rops n tau) |}.
+Definition prefix_mlp_formula_violates_adjoint : Prop :=
+  exists n d h K (X Y g : mat) (th dth : @MlpP R),
+    inner n K g (smjvp K Y (mlp_dlogits d h X th dth))
+    <> - inner_mlp d h K (mlp_compute_grads_prefix n K (mlp_hidden Rops d h (mW1 th) (mb1 th) X) X Y g) dth.
+
+Lemma prefix_violates : prefix_mlp_formula_violates_adjoint.
+Proof.
+  exists 1%nat, 1%nat, 1%nat, 2%nat, (fun _ _ => 1), (fun _ _ => /2), (fun _ k => match k with O => 1 | _ => 0 end),
+    {| mW1 := fun _ _ => 1; mW2 := fun _ k => match k with O => 1 | _ => 0 end; mb1 := fun _ => 0; mb2 := fun _ => 0 |},
+    {| mW1 := fun _ _ => 1; mW2 := fun _ _ => 0; mb1 := fun _ => 0; mb2 := fun _ => 0 |}.
+  rewrite mlp_adjoint_any. intros E. apply Ropp_eq_compat in E. rewrite !Ropp_involutive in E. revert E.
+  unfold inner_mlp, mlp_compute_grads, mlp_compute_grads_prefix, inner, inner_vec, mlp_backprop, relu_mask, mlp_hidden, relu, nmax,
+    tmatmul, colsum, mneg, vneg, nneg, tau_hat, affine, rsum.
+  cbn [bsum mW1 mW2 mb1 mb2 nadd nsub nmul n0 n1 nltb Rops].
+  unfold Rltb. repeat (destruct (Rlt_dec _ _); try lra).
+Qed.
+
+Lemma nonvacuous_witness :
+  (let X : mat := fun i _ => match i with O => 1 | _ => -2 end in
+   let th : @MlpP R := {| mW1 := fun _ j => match j with O => 1 | _ => -1 end; mW2 := fun _ _ => 1;
+                          mb1 := fun _ => /2; mb2 := fun _ => 0 |} in
+   relu_off_kink 2 2 (preact 1 X th)) /\
+  is_order 2 [1; 0]%nat /\ sym_on 2 (fun j l => INR (j + l)) /\ length [7; 3; 11]%nat = 3%nat /\
+  prefix_mlp_formula_violates_adjoint.
+Proof.
+  split; [|split; [|split; [|split; [reflexivity | exact prefix_violates]]]].
+  - cbv zeta. intros i j Hi Hj. unfold preact, affine. cbn [bsum mW1 mb1 nadd nmul n0 Rops].
+    destruct i as [|[|i]]; [| |lia]; (destruct j as [|[|j]]; [| |lia]); lra.
+  - split; [reflexivity|]. split.
+    + repeat constructor; cbn; intuition discriminate.
+    + intros p [<-|[<-|[]]]; lia.
+  - intros j l _ _. rewrite Nat.add_comm. reflexivity.
+Qed.
+
+(* ================================================================== the genuine (not linearised) objective *)
+(* obj is differentiable at the predictions Y0 with gradient g along every differentiable curve through Y0
+   (Hadamard differentiability on the n x K block; what C02 establishes along straight lines is the case Yc = Y0 + t D) *)
+Definition curve_differentiable (n K : nat) (obj : mat -> R) (Y0 g : mat) : Prop :=
+  forall (Yc : R -> mat) (D : mat),
+    (forall i k, (i < n)%nat -> (k < K)%nat -> Yc 0 i k = Y0 i k) ->
+    (forall i k, (i < n)%nat -> (k < K)%nat -> is_derive (fun t : R => Yc t i k) 0 (D i k)) ->
+    is_derive (fun t : R => obj (Yc t)) 0 (inner n K g D).
+(* not vacuous: linear functionals are, and the decorated objective is as soon as the objective is *)
+Lemma curve_differentiable_linear n K (g Y0 : mat) : curve_differentiable n K (fun Y => inner n K g Y) Y0 g.
+Proof. intros Yc D _ HD. apply (dR_inner n K g Yc D HD). Qed.
+Lemma curve_differentiable_decorated f idx n K (obj : mat -> R) (Y0 g : mat) ml cl : length idx = n ->
+  curve_differentiable n K obj Y0 g ->
+  curve_differentiable n K (fun Y => obj Y + pair_pen f idx K Y cl - pair_pen f idx K Y ml) Y0
+    (decorated_gradient Rops f idx n K Y0 ml cl g).
+Proof.
+  intros Ln Hobj Yc D H0 HD.
+  apply (mlcl_decorated_gradient f idx n K obj Yc Y0 g D ml cl Ln H0 HD). apply Hobj; assumption.
+Qed.
+
+Theorem linear_objective_direction_is_gradient n d K (obj : mat -> R) (X : mat) (th dth : @LinP R) (g : mat) : (0 < K)%nat ->
+  curve_differentiable n K obj (linear_infer_p Rops d K th X) g ->
+  is_derive (fun t : R => obj (linear_infer_p Rops d K (lin_pert th dth t) X)) 0
+            (- inner_lin d K (linear_step_grads Rops n d K th X g) dth).
+Proof.
+  intros HK Hobj. rewrite <- linear_adjoint.
+  apply (Hobj (fun t => linear_infer_p Rops d K (lin_pert th dth t) X) (linear_jvp d K X th dth)).
+  - intros i k _ _. apply linear_infer_pert0.
+  - intros i k Hi Hk. apply (linear_infer_derive n); assumption.
+Qed.
+Theorem mlp_objective_direction_is_gradient n d h K (obj : mat -> R) (X : mat) (th dth : @MlpP R) (g : mat) : (0 < K)%nat ->
+  relu_off_kink n h (preact d X th) ->
+  curve_differentiable n K obj (mlp_infer_p Rops d h K th X) g ->
+  is_derive (fun t : R => obj (mlp_infer_p Rops d h K (mlp_pert th dth t) X)) 0
+            (- inner_mlp d h K (mlp_step_grads Rops n d h K th X g) dth).
+Proof.
+  intros HK Hoff Hobj. rewrite <- (mlp_adjoint n d h K X th g dth Hoff).
+  apply (Hobj (fun t => mlp_infer_p Rops d h K (mlp_pert th dth t) X) (mlp_jvp n d h K X th dth)).
+  - intros i k _ _. apply mlp_infer_pert0.
+  - intros i k Hi Hk. apply mlp_infer_derive; assumption.
+Qed.
+
+(* RIM / KernelRIM with the decoration: MI + constraint terms - penalty *)
+Theorem rim_decorated_direction_is_gradient n d K reg f idx (X : mat) (th dth : @LinP R) (g : mat) ml cl :
+  (0 < K)%nat -> length idx = n ->
+  is_derive (fun t : R => inner n K g (linear_infer_p Rops d K (lin_pert th dth t) X)
+                          + pair_pen f idx K (linear_infer_p Rops d K (lin_pert th dth t) X) cl
+                          - pair_pen f idx K (linear_infer_p Rops d K (lin_pert th dth t) X) ml
+                          - reg * sqnorm d K (lW (lin_pert th dth t))) 0
+            (- inner_lin d K (rim_step_grads Rops n d K reg th X
+                                (decorated_gradient Rops f idx n K (linear_infer_p Rops d K th X) ml cl g)) dth).
+Proof.
+  intros HK Ln. unfold rim_step_grads. rewrite rim_grads_split.
+  eapply dR_val; [|apply dR_minus; [apply (linear_decorated_direction_is_gradient n d K f idx X th dth g ml cl HK Ln)
+                                   | apply (penalty_l2_derive d K reg (lW th) (lW dth))]].
+  eqR. ring.
+Qed.
+Theorem kernel_rim_decorated_direction_is_gradient n nt K reg f idx (Kt X : mat) (th dth : @LinP R) (g : mat) ml cl :
+  (0 < K)%nat -> length idx = n -> sym_on nt Kt ->
+  is_derive (fun t : R => inner n K g (linear_infer_p Rops nt K (lin_pert th dth t) X)
+                          + pair_pen f idx K (linear_infer_p Rops nt K (lin_pert th dth t) X) cl
+                          - pair_pen f idx K (linear_infer_p Rops nt K (lin_pert th dth t) X) ml
+                          - reg * trWKW nt K Kt (lW (lin_pert th dth t))) 0
+            (- inner_lin nt K (kernel_rim_step_grads Rops n nt K reg Kt th X
+                                 (decorated_gradient Rops f idx n K (linear_infer_p Rops nt K th X) ml cl g)) dth).
+Proof.
+  intros HK Ln Hsym. unfold kernel_rim_step_grads. rewrite kernel_rim_grads_split.
+  eapply dR_val; [|apply dR_minus; [apply (linear_decorated_direction_is_gradient n nt K f idx X th dth g ml cl HK Ln)
+                                   | apply (penalty_kernel_derive nt K reg Kt (lW th) (lW dth) Hsym)]].
+  eqR. unfold linear_step_grads. ring.
+Qed.
